@@ -3,15 +3,19 @@
 Implementation under test (imported from /repo's working tree):
   pybrops.model.vmat.util, pybrops.core.util.subroutines.srange,
   the four genetic variance classes, the four progeny covariance classes, the four genic classes,
-  the variance matrix factories and UsefulnessCriterionSubsetMateSelectionProblem.
+  the variance matrix factories and the four UsefulnessCriterion*MateSelectionProblem classes.
 
 Model: lean/PybropsModel/Model/Variance.lean through the `c12.*` driver ops.
 Spec oracle: exhaustive enumeration of the gametes of the cross scheme with their probabilities
   (a) in Lean, literally the object of the theorems (`c12.spec_enum`) on the small cases,
   (b) in exact `Fraction` arithmetic here (`_Enum`, propagation of the gamete distribution through
-      every meiosis of the scheme) on all cases with <= 5 markers.
+      every meiosis of the scheme) on all cases with <= 5 markers and shallow selfing,
+  (c) for deep selfing / many markers / arbitrary float positions: the same enumeration on every PAIR of
+      loci (`_PairOracle`; the marginal of the no-interference crossover process on two loci is the two-locus
+      process with r_ij = mapfn(|g_i - g_j|)), summed over all pairs.
 """
 import contextlib
+import copy
 import inspect
 import itertools
 import math
@@ -36,6 +40,8 @@ SCHEMES = ("two", "three", "four", "dihybrid")
 NPARENT = {"two": 2, "three": 3, "four": 4, "dihybrid": 2}
 EPGC = {"two": (HALF, HALF), "three": (HALF, F(1, 4), F(1, 4)), "four": (F(1, 4),) * 4,
         "dihybrid": (HALF, HALF)}
+DEFAULT_MEM = 1024
+UC_CLASSES = ("Subset", "Binary", "Integer", "Real")
 
 
 # --------------------------------------------------------------------------------------------
@@ -70,10 +76,12 @@ def _mods():
     _M["genic_fcty_mod_two"] = imp("pybrops.model.vmat.fcty." + c)
     _M["genic_fcty_two"] = getattr(_M["genic_fcty_mod_two"], c)
     _M["ucmod"] = imp("pybrops.breed.prot.sel.prob.UsefulnessCriterionSelectionProblem")
+    _M["ucprot"] = imp("pybrops.breed.prot.sel.UsefulnessCriterionSelection")
     _M["pgmat"] = imp("pybrops.popgen.gmat.DensePhasedGenotypeMatrix").DensePhasedGenotypeMatrix
     _M["algmod"] = imp("pybrops.model.gmod.DenseAdditiveLinearGenomicModel").DenseAdditiveLinearGenomicModel
     hm = imp("pybrops.popgen.gmap.HaldaneMapFunction")
     _M["haldane"] = hm.HaldaneMapFunction
+    _M["haldane_f"] = hm.HaldaneMapFunction
 
     class Pow2MapFunction(hm.HaldaneMapFunction):
         """Haldane's map function in the unit ln2/2 Morgan: r(d) = (1 - 2^(-2d))/2.  For positions
@@ -128,11 +136,22 @@ def _fr(x):
     return F(x) if not isinstance(x, str) else canon.dec(x)
 
 
+def _is_f(case):
+    return case["mapfn"] == "haldane_f"
+
+
 def _genpos_float(case):
+    """the float positions handed to the code under test"""
+    if _is_f(case):
+        return numpy.array([float(_fr(v)) for v in case["genposf"]], dtype=float)
     g2 = case["genpos2"]
     if case["mapfn"] == "haldane":
         return numpy.array([k * LN2_HALF for k in g2], dtype=float)
     return numpy.array([k / 2.0 for k in g2], dtype=float)
+
+
+def _nmark(case):
+    return sum(case["chr_sizes"])
 
 
 def _chr_of(case):
@@ -141,6 +160,29 @@ def _chr_of(case):
         out.append([st, st + s])
         st += s
     return out
+
+
+def _chr_index(case):
+    out = []
+    for ci, s in enumerate(case["chr_sizes"]):
+        out.extend([ci] * s)
+    return out
+
+
+def _relayout(a, how):
+    """same values, another memory layout"""
+    if how == "F":
+        return numpy.asfortranarray(a)
+    if how == "view":                      # non-contiguous view into a larger buffer with junk in between
+        shape = list(a.shape)
+        shape[-1] *= 2
+        base = numpy.full(shape, 1, dtype=a.dtype)
+        base[..., ::2] = a
+        base[..., 1::2] = (a * 3 + 1).astype(a.dtype)
+        return base[..., ::2]
+    if how == "rev":                       # negative strides
+        return a[..., ::-1].copy()[..., ::-1]
+    return a
 
 
 def _build(case, perm=None, grouped=True, genpos=True):
@@ -153,44 +195,122 @@ def _build(case, perm=None, grouped=True, genpos=True):
         geno = geno[:, perm, :]
         taxa = taxa[perm]
         taxa_grp = taxa_grp[perm]
-    chrgrp = numpy.concatenate([numpy.repeat(ci + 1, s) for ci, s in enumerate(case["chr_sizes"])]).astype(int)
-    pg = m["pgmat"](mat=geno.copy(), taxa=taxa, taxa_grp=taxa_grp, vrnt_chrgrp=chrgrp,
+    labels = case.get("chr_labels") or list(range(1, len(case["chr_sizes"]) + 1))
+    chrgrp = numpy.concatenate([numpy.repeat(lb, s) for lb, s in zip(labels, case["chr_sizes"])]).astype(int)
+    lay = case.get("layout") or {}
+    pg = m["pgmat"](mat=geno.copy(), taxa=taxa, taxa_grp=None if case.get("taxa_grp_none") else taxa_grp,
+                    vrnt_chrgrp=chrgrp,
                     vrnt_phypos=numpy.arange(p) * 10 + 1,
                     vrnt_name=numpy.array([f"snp{i}" for i in range(p)], dtype=object),
                     vrnt_genpos=_genpos_float(case) if genpos else None)
     if grouped:
         pg.group_vrnt()
+    if lay.get("geno"):
+        pg.mat = _relayout(pg.mat, lay["geno"])
+    if lay.get("genpos") and genpos:
+        pg.vrnt_genpos = _relayout(pg.vrnt_genpos, lay["genpos"])
     u = numpy.array([[float(_fr(v)) for v in row] for row in case["u"]], dtype=float)
+    if lay.get("u"):
+        u = _relayout(u, lay["u"])
     nt = u.shape[1]
     beta = numpy.array([[float(_fr(v)) for v in case.get("beta", [0] * nt)]], dtype=float)
     gm = m["algmod"](beta=beta, u_misc=None, u_a=u,
                      trait=numpy.array([f"tr{i}" for i in range(nt)], dtype=object))
-    mf = m["haldane"]() if case["mapfn"] == "haldane" else m[case["mapfn"]]()
+    mf = m[case["mapfn"]]()
     return pg, gm, mf
 
 
-def _nself_arg(ns):
-    return numpy.inf if ns is None else int(ns)
+def _nself_arg(ns, form=None):
+    if ns is None:
+        return {"float_inf": float("inf"), "math_inf": math.inf, "np_f64_inf": numpy.float64("inf")}.get(form, numpy.inf)
+    if form == "npint":
+        return numpy.int64(ns)
+    if form == "npint8":
+        return numpy.int8(ns)
+    return int(ns)
 
 
-def _call_vmat(case, pg, gm, mf, mem):
+def _mem_kw(mem, form=None):
+    if mem == "default":
+        return {}
+    if mem is not None and form == "npint":
+        return {"mem": numpy.int64(mem)}
+    return {"mem": mem}
+
+
+def _mem_model(mem):
+    return DEFAULT_MEM if mem == "default" else mem
+
+
+def _call_vmat(case, pg, gm, mf, mem, fobj=None):
+    """one matrix request; `fobj` = factory instance to reuse (histories)"""
     m = _mods()
     sch = case["scheme"]
-    ns = _nself_arg(case["nself"])
+    ns = _nself_arg(case["nself"], case.get("nself_form"))
     via = case["via"]
+    kw = _mem_kw(mem, case.get("mem_form"))
+    nm, npg = int(case.get("nmating", 1)), int(case.get("nprogeny", 10))      # stored only; no influence on the variance
     if case["cov"]:
         cls = m["cov_" + sch]
         if via == "gmod":
-            return cls.from_gmod(gm, pg, 1, 10, ns, mf, mem=mem)
-        return cls.from_algmod(gm, pg, 1, 10, ns, mf, mem=mem)
+            return cls.from_gmod(gm, pg, nm, npg, ns, mf, **kw)
+        return cls.from_algmod(gm, pg, nm, npg, ns, mf, **kw)
     cls = m["var_" + sch]
     if via == "gmod":
-        return cls.from_gmod(gm, pg, 1, 10, ns, mf, mem=mem)
+        return cls.from_gmod(gm, pg, nm, npg, ns, mf, **kw)
     if via == "factory":
-        return m["fcty_" + sch]().from_gmod(gm, pg, 1, 10, ns, mf, mem=mem)
+        return (fobj or m["fcty_" + sch]()).from_gmod(gm, pg, nm, npg, ns, mf, **kw)
     if via == "factory_algmod":
-        return m["fcty_" + sch]().from_algmod(gm, pg, 1, 10, ns, mf, mem=mem)
-    return cls.from_algmod(gm, pg, 1, 10, ns, mf, mem=mem)
+        return (fobj or m["fcty_" + sch]()).from_algmod(gm, pg, nm, npg, ns, mf, **kw)
+    return cls.from_algmod(gm, pg, nm, npg, ns, mf, **kw)
+
+
+def _call_genic(case, pg, gm, fobj=None):
+    m = _mods()
+    sch, via = case["scheme"], case["via"]
+    cls = m["genic_" + sch]
+    with _poisoned(m["genic_mod_" + sch]):
+        if via == "algmod":
+            return cls.from_algmod(gm, pg, 10, mem=case["mem"])
+        if via == "gmod":
+            return cls.from_gmod(gm, pg, 10, mem=case["mem"])
+        if via == "gmod_nomem":
+            return cls.from_gmod(gm, pg, 10)
+        return (fobj or m["genic_fcty_two"]()).from_gmod(gm, pg, 10)
+
+
+def _call_uc(case, pg, gm, mf, fobj=None):
+    m = _mods()
+    sch = case["scheme"]
+    cname = case.get("uc_class", "Subset")
+    cls = getattr(m["ucmod"], f"UsefulnessCriterion{cname}MateSelectionProblem")
+    npar = NPARENT[sch]
+    xm = cls._calc_xmap(pg.ntaxa, npar, case["unique_parents"])
+    k = len(xm)
+    if cname == "Subset":
+        space = dict(ndecn=1, decn_space=numpy.arange(k), decn_space_lower=None, decn_space_upper=None)
+    elif cname == "Real":
+        space = dict(ndecn=k, decn_space=numpy.stack([numpy.zeros(k), numpy.ones(k)]),
+                     decn_space_lower=numpy.zeros(k), decn_space_upper=numpy.ones(k))
+    else:
+        space = dict(ndecn=k, decn_space=numpy.stack([numpy.zeros(k, dtype=int), numpy.ones(k, dtype=int)]),
+                     decn_space_lower=numpy.zeros(k, dtype=int), decn_space_upper=numpy.ones(k, dtype=int))
+    kw = dict(nparent=npar, ncross=int(case.get("nmating", 1)), nprogeny=int(case.get("nprogeny", 10)), nself=int(case["nself"]),
+              upper_percentile=float(_fr(case["upper_percentile"])), vmatfcty=fobj or m["fcty_" + sch](), gmapfn=mf,
+              unique_parents=bool(case["unique_parents"]), pgmat=pg, gpmod=gm, nobj=len(case["u"][0]), **space)
+    if case.get("uc_method") == "protocol":
+        # the selection protocol builds the problem itself (cross map, median of per-cross nmating / nprogeny arrays)
+        pcls = getattr(m["ucprot"], f"UsefulnessCriterion{cname}Selection")
+        npg = int(case.get("nprogeny", 10))
+        prot = pcls(ntrait=len(case["u"][0]), nself=int(case["nself"]), upper_percentile=float(_fr(case["upper_percentile"])),
+                    vmatfcty=kw["vmatfcty"], gmapfn=mf, unique_parents=bool(case["unique_parents"]), ncross=1, nparent=npar,
+                    nmating=numpy.array([1, 3, 3]), nprogeny=numpy.array([max(npg - 1, 1), npg, npg + 30]), nobj=len(case["u"][0]))
+        prob = prot.problem(pg, None, None, None, gm, 0, 0)
+    elif case.get("uc_method") == "xmap":
+        prob = cls.from_pgmat_gpmod_xmap(xmap=xm, **kw)
+    else:
+        prob = cls.from_pgmat_gpmod(**kw)
+    return {"uc": canon.enc(prob.ucmat), "xmap": [[int(v) for v in row] for row in prob.decn_space_xmap]}
 
 
 # --------------------------------------------------------------------------------------------
@@ -199,16 +319,19 @@ def _call_vmat(case, pg, gm, mf, mem):
 class _Enum:
     """Distribution of the final doubled-haploid gamete of a cross scheme, obtained by pushing the
     distribution of genotypes through every meiosis (all 2^m crossover masks each, probabilities
-    `xs`), exactly, over Fractions.  Independent of the closed formulas under test."""
+    `xs`), over Fractions (exact) or floats.  Independent of the closed formulas under test."""
 
-    def __init__(self, xs):
-        self.xs = [F(x) for x in xs]
+    def __init__(self, xs, exact=True):
+        self.conv = F if exact else float
+        self.xs = [self.conv(x) for x in xs]
         self.m = len(xs)
+        self.symmetric = bool(self.xs) and self.xs[0] * 2 == 1      # random start phase: (h0,h1) ~ (h1,h0)
+        one = self.conv(1)
         self.masks = []
         for bits in itertools.product((0, 1), repeat=self.m):
-            pr = F(1)
+            pr = one
             for b, x in zip(bits, self.xs):
-                pr *= x if b else (1 - x)
+                pr = pr * (x if b else (one - x))
             if pr:
                 ph, acc = [], 0
                 for b in bits:
@@ -237,7 +360,7 @@ class _Enum:
                 for g1, p1 in G.items():
                     pp = p * p1
                     for g2, p2 in G.items():
-                        k = (g1, g2)
+                        k = (g1, g2) if (g1 <= g2 or not self.symmetric) else (g2, g1)      # unordered genotype: same gametes
                         new[k] = new.get(k, 0) + pp * p2
             state = new
         fin = {}
@@ -247,9 +370,10 @@ class _Enum:
         return fin
 
     def scheme(self, scheme, haps, n):
-        haps = [tuple(F(v) for v in h) for h in haps]
+        haps = [tuple(int(v) for v in h) for h in haps]
+        one = self.conv(1)
         if scheme == "two":
-            st = {(haps[0], haps[1]): F(1)}
+            st = {(haps[0], haps[1]): one}
         elif scheme == "three":
             st = {(haps[0], g): p for g, p in self.gamete(haps[1], haps[2]).items()}
         else:
@@ -271,23 +395,88 @@ class _Enum:
         return mean, cov
 
 
-def _xs_of(case):
-    """per-marker crossover probabilities of the meiosis model (1/2 at chromosome starts, the map
-    function of the adjacent distance elsewhere); `linkage_free` => all 1/2"""
+class _PairOracle:
+    """moments of the final gamete's alleles by enumeration on one locus / on every pair of loci"""
+
+    def __init__(self, exact):
+        self.exact = exact
+        self.half = HALF if exact else 0.5
+        self.en = {}
+        self.memo = {}
+
+    def _enum(self, c):
+        e = self.en.get(c)
+        if e is None:
+            e = _Enum([self.half] if c is None else [self.half, (1 - c) / 2], exact=self.exact)
+            self.en[c] = e
+        return e
+
+    def single(self, esch, alle, gens):
+        """(mean, variance) of the allele at one locus; `alle` = the parental alleles"""
+        key = (esch, None, alle, gens)
+        r = self.memo.get(key)
+        if r is None:
+            mean, cov = self._enum(None).moments(esch, [(a,) for a in alle], gens)
+            r = (mean[0], cov[0][0])
+            self.memo[key] = r
+        return r
+
+    def pair(self, esch, alle_i, alle_j, c, gens):
+        """covariance of the alleles at two loci with 1 - 2 r_ij = c"""
+        key = (esch, c, alle_i, alle_j, gens)
+        r = self.memo.get(key)
+        if r is None:
+            _, cov = self._enum(c).moments(esch, list(zip(alle_i, alle_j)), gens)
+            r = cov[0][1]
+            self.memo[key] = r
+            self.memo[(esch, c, alle_j, alle_i, gens)] = r
+        return r
+
+
+INF_GENERATIONS = 34       # full enumeration: (1/2)^34 < 1e-10
+INF_GENERATIONS_PAIR = 60  # pair oracle: (1/2)^60 < 1e-18
+
+
+def _c_fun(case):
+    """(i, j) -> 1 - 2 r_ij for two markers of one linkage group (exact Fraction, or float for haldane_f)"""
+    if _is_f(case):
+        gf = [float(_fr(v)) for v in case["genposf"]]
+        return lambda i, j: math.exp(-2.0 * abs(gf[i] - gf[j]))
     g2 = case["genpos2"]
+    return lambda i, j: F(1, 2 ** abs(g2[i] - g2[j]))
+
+
+def _rmat_table(case):
+    """haldane_f: the recombination matrix 0.5 (1 - exp(-2 |g_i - g_j|)) in floats, encoded exactly"""
+    gf = [float(_fr(v)) for v in case["genposf"]]
+    p = len(gf)
+    return [[canon.enc(0.5 * (1.0 - math.exp(-2.0 * abs(gf[i] - gf[j])))) for j in range(p)] for i in range(p)]
+
+
+def _sorted_order(case):
+    """marker order by (linkage group, position); identity when already sorted"""
+    pos = [float(_fr(v)) for v in case["genposf"]] if _is_f(case) else list(case["genpos2"])
+    ci = _chr_index(case)
+    return sorted(range(len(pos)), key=lambda k: (ci[k], pos[k], k))
+
+
+def _xs_sorted(case, order):
+    """per-marker crossover probabilities of the meiosis model for the markers taken in `order`
+    (1/2 at linkage-group starts, the map function of the adjacent distance elsewhere)"""
+    ci = _chr_index(case)
+    c = _c_fun(case)
+    half = 0.5 if _is_f(case) else HALF
     xs = []
-    st = 0
-    for s in case["chr_sizes"]:
-        for k in range(st, st + s):
-            if k == st:
-                xs.append(HALF)
-            else:
-                xs.append((1 - F(1, 2 ** (g2[k] - g2[k - 1]))) / 2)
-        st += s
+    for a, k in enumerate(order):
+        if a == 0 or ci[order[a - 1]] != ci[k]:
+            xs.append(half)
+        else:
+            xs.append((1 - c(order[a - 1], k)) / 2)
     return xs
 
 
-INF_GENERATIONS = 34       # (1/2)^34 < 1e-10: the SSD limit to the tolerance used for nself = inf
+def _xs_of(case):
+    return _xs_sorted(case, list(range(_nmark(case))))
 
 
 def _tuple_haps(scheme, geno, tup):
@@ -310,43 +499,208 @@ def _get(M, tup):
 
 
 def _is_skipped_diagonal(scheme, tup):
-    """cells the lower-triangle loops never visit"""
+    """cells the lower-triangle loops never visited before fix D33"""
     return tup[-1] == tup[-2]
+
+
+def _U(case):
+    return [[_fr(v) for v in row] for row in case["u"]]
+
+
+def _scale(U, s, t):
+    """natural magnitude of the (s,t) cell: 4 sum_i |u_is| sum_j |u_jt| bounds every term of the double sum"""
+    return 4 * sum(abs(r[s]) for r in U) * sum(abs(r[t]) for r in U)
+
+
+def _tol(case):
+    """tolerance relative to `_scale`.  The code's float rounding is ~1e-15 of the scale for the sizes used here
+    (<= 40 markers); at positions k*ln2/2 the rounding of the position itself enters exp: 4e-15 per map unit."""
+    if case["mapfn"] == "haldane":
+        mx = max([abs(k) for k in case["genpos2"]] + [1]) * LN2_HALF
+        return 1e-12 + 4e-15 * mx
+    return 1e-12
+
+
+def _near(a, b, tol, scale):
+    return abs(a - b) <= tol * scale
+
+
+def _full_ok(case, linkage_free=False):
+    p = _nmark(case)
+    ns = case.get("nself", 0)
+    if p > 5:
+        return False
+    if ns is None:
+        return False                       # the pair oracle reaches deeper cheaply
+    return ns <= 1 or (ns <= 3 and p <= 4)
+
+
+_ORACLE_MEMO = {}
+
+
+def _oracle_matrix(case, linkage_free=False, force_pair=False):
+    """memoised `_oracle_matrix_raw` (a pure function of the state; the self-test evaluates each case once per mutant)"""
+    import json
+    key = json.dumps([case.get(k) for k in ("scheme", "geno", "u", "chr_sizes", "genpos2", "genposf", "mapfn", "nself")]
+                     + [linkage_free, force_pair], sort_keys=True, default=str)
+    if key not in _ORACLE_MEMO:
+        if len(_ORACLE_MEMO) > 5000:
+            _ORACLE_MEMO.clear()
+        _ORACLE_MEMO[key] = _oracle_matrix_raw(case, linkage_free, force_pair)
+    return _ORACLE_MEMO[key]
+
+
+def _oracle_matrix_raw(case, linkage_free=False, force_pair=False):
+    """{tuple: (mean per trait, covariance matrix over traits)} by exhaustive enumeration; None when the map
+    function is not multiplicative (cap)"""
+    if case["mapfn"] == "cap" and not linkage_free:
+        return None
+    p = _nmark(case)
+    sch = case["scheme"]
+    n = len(case["geno"][0])
+    U = _U(case)
+    nt = len(U[0])
+    ns = case.get("nself", 0)
+    # exact Fractions for shallow selfing at dyadic recombination rates; floats for deep selfing / nself = inf
+    # (the Fractions of 20-60 generations have thousands of digits) and for arbitrary float positions
+    exact = linkage_free or (not _is_f(case) and ns is not None and ns <= 3)
+    out, cache = {}, {}
+    if _full_ok(case) and not force_pair:
+        order = _sorted_order(case)
+        xs = [HALF] * p if linkage_free else _xs_sorted(case, order)
+        en = _Enum(xs, exact=exact)
+        Uo = [U[k] for k in order]
+        for tup in _all_tuples(sch, n):
+            haps, esch = _tuple_haps(sch, case["geno"], tup)
+            haps = [[h[k] for k in order] for h in haps]
+            key = (esch, tuple(tuple(h) for h in haps))
+            if key not in cache:
+                mean, cov = en.moments(esch, haps, ns)
+                C = [[4 * sum(Uo[i][s] * Uo[j][t] * cov[i][j] for i in range(p) for j in range(p))
+                      for t in range(nt)] for s in range(nt)]
+                mu = [2 * sum(Uo[i][t] * mean[i] for i in range(p)) for t in range(nt)]
+                cache[key] = (mu, C)
+            out[tup] = cache[key]
+        return out
+    gens = INF_GENERATIONS_PAIR if ns is None else ns
+    po = _PairOracle(exact)
+    cf = _c_fun(case) if not linkage_free else None
+    ci = _chr_index(case)
+    zero = 0 if exact else 0.0
+    for tup in _all_tuples(sch, n):
+        haps, esch = _tuple_haps(sch, case["geno"], tup)
+        key = (esch, tuple(tuple(h) for h in haps))
+        if key not in cache:
+            cols = [tuple(int(h[i]) for h in haps) for i in range(p)]
+            mean = [None] * p
+            cov = [[zero] * p for _ in range(p)]
+            for i in range(p):
+                mean[i], cov[i][i] = po.single(esch, cols[i], gens)
+                for j in range(i):
+                    c = zero if (linkage_free or ci[i] != ci[j]) else cf(i, j)
+                    v = po.pair(esch, cols[i], cols[j], c, gens)
+                    cov[i][j] = cov[j][i] = v
+            C = [[4 * sum(U[i][s] * U[j][t] * cov[i][j] for i in range(p) for j in range(p))
+                  for t in range(nt)] for s in range(nt)]
+            mu = [2 * sum(U[i][t] * mean[i] for i in range(p)) for t in range(nt)]
+            cache[key] = (mu, C)
+        out[tup] = cache[key]
+    return out
+
+
+def _identical(scheme, geno, tup):
+    if scheme == "dihybrid":
+        f, m = tup
+        hs = [geno[0][f], geno[1][f], geno[0][m], geno[1][m]]
+    else:
+        hs = [geno[0][t] for t in tup]
+    return all(h == hs[0] for h in hs)
+
+
+# --------------------------------------------------------------------------------------------
+# histories on one set of objects: pure replay of the steps on the JSON state
+# --------------------------------------------------------------------------------------------
+STATE_KEYS = ("geno", "u", "chr_sizes", "genpos2", "genposf", "mapfn", "beta", "chr_labels")
+
+
+def _hist_subs(case):
+    """[(step index, sub-case in force at that call)] for every call / uc step"""
+    st = {k: copy.deepcopy(case[k]) for k in STATE_KEYS if k in case}
+    n = len(st["geno"][0])
+    out = []
+    for ix, step in enumerate(case["steps"]):
+        op = step["op"]
+        if op in ("call", "uc"):
+            sub = copy.deepcopy(st)
+            sub.update(scheme=case["scheme"], cov=bool(case.get("cov")) and op == "call", via=step.get("via", case.get("via", "factory")),
+                       mem=step.get("mem"), mem2=None, nself=step.get("nself", 0), perm=list(range(n)),
+                       mapfn=step.get("mapfn", st["mapfn"]))
+            if op == "uc":
+                sub.update(kind="uc", unique_parents=step["unique_parents"], upper_percentile=step["upper_percentile"],
+                           uc_class=step.get("uc_class", "Subset"), uc_method=step.get("uc_method", "gpmod"))
+                sub.setdefault("beta", [0] * len(st["u"][0]))
+            else:
+                sub["kind"] = case.get("family", "vmat")
+            out.append((ix, sub))
+        elif op == "set_genpos":
+            st["genpos2"] = list(step["genpos2"])
+        elif op == "flip":
+            t, i = step["taxon"], step["marker"]
+            phases = (0, 1) if case["scheme"] != "dihybrid" else (step.get("phase", 0),)
+            for ph in phases:
+                st["geno"][ph][t][i] = 1 - st["geno"][ph][t][i]
+        elif op == "set_u":
+            st["u"][step["i"]][step["t"]] = step["v"]
+        elif op == "mutres":
+            pass
+        else:
+            raise ValueError(op)
+    return out
 
 
 # --------------------------------------------------------------------------------------------
 class C12(Prop):
     PID = "C12"
     MODULE = "PybropsModel.Props.C12"
-    N_QUICK = 150
-    N_THOROUGH = 2500
+    N_QUICK = 170
+    N_THOROUGH = 4000
     CORRESPONDENCE = "functional"
-    RULE = ("cases of kind vmat (70 %): scheme in two/three/four/dihybrid x {variance, covariance} x "
-            "{from_algmod, from_gmod, factory}; 2-4 taxa with forced genetically identical pairs, inbred parents "
-            "(arbitrary phased genotypes for dihybrid), 1-3 chromosomes of 1-4 markers (<= 6 markers), positions "
-            "multiples of 1/2 with ties, integer / half-integer effects for 1-3 traits, mem in {1,2,3,7,None} and a "
-            "second chunk size, nself in {0,1,2,3,inf}, a taxa permutation; map function pow2 (exact), the real "
-            "HaldaneMapFunction at positions k*ln2/2, or cap (correspondence only).  kinds genic (two-way/dihybrid "
-            "with NaN-poisoned numpy.empty; three-/four-way), uc (UsefulnessCriterionSubsetMateSelectionProblem."
-            "from_pgmat_gpmod with unique_parents true/false), util (vmat/util.py on dyadic r), chunks (srange), "
-            "reject (ungrouped / no genetic positions / mem = 0 / nself < 0 must raise) make up the rest.  All index tuples "
-            "(self hybrids included) are compared with the enumeration.  Non-trivial = vmat/uc case with >= 2 genetically distinct parents, a chromosome "
-            "with >= 2 segregating markers at distinct positions and a chunk size smaller than that chromosome; "
-            "genic case with a segregating marker; util with 0 < r < 1/2; chunks with >= 2 chunks")
+    RULE = ("kind vmat (45 %): scheme in two/three/four/dihybrid x {variance, covariance} x {from_algmod, from_gmod, factory, "
+            "factory.from_algmod}; 2-4 taxa with forced genetically identical pairs, inbred parents (arbitrary phased genotypes for "
+            "dihybrid), 1-3 linkage groups of 1-4 markers, optional large position offsets per group (10.5, 250, 25000 map units) and "
+            "non-consecutive / negative group labels, ties, integer / half-integer effects for 1-3 traits, mem in {1,2,3,7,None,"
+            "group size, default}, nself in {0..3, inf} and deep (4..20), numpy / float forms of nself and mem, Fortran-ordered and "
+            "non-contiguous inputs, a taxa permutation; map function pow2 (exact), the real HaldaneMapFunction at positions k*ln2/2, "
+            "the real HaldaneMapFunction at arbitrary float positions (spacings 0, 1e-8, 1e-5, 1e-3 .. 40 Morgan, unsorted, offsets up "
+            "to 1e9; model receives the r table) or cap (correspondence only).  kind hist (12 %): ONE factory / pgmat / gmod object "
+            "set, 2-4 requests with map function / positions / genotypes / effects / selfing depth / earlier results changed in "
+            "between, every request compared with the enumeration of the state in force, earlier results re-read at the end.  kinds "
+            "genic, uc (all four problem classes x both constructors and the four selection protocols' problem()), util (k up to 21, r down to 2^-20), chunks, wide (128-1030 "
+            "markers per group, default mem; 4100 markers in the thorough tier), reject make up the rest.  The corpus holds, for "
+            "each of the 24 matrix entry points, three stress cases (positions > 10 map units + Fortran order + labels <= 0 + exact "
+            "chunk multiples; offsets 1e9 with gaps 0.5 / 1e-5 / 1e-8; 20 selfing generations at tight linkage).  All index tuples (self hybrids included) are compared with the "
+            "enumeration.  Non-trivial = vmat/uc/hist case with >= 2 genetically distinct parents, a group with >= 2 segregating "
+            "linked markers and (vmat) a chunk size smaller than that group; genic case with a segregating marker; util with "
+            "0 < r < 1/2; chunks with >= 2 chunks")
     TRUSTED = [
-        "numpy.exp in HaldaneMapFunction.mapfn (compared with tolerance 1e-9 against 2^-k at positions k*ln2/2)",
+        "numpy.exp in HaldaneMapFunction.mapfn (compared with tolerance against 2^-k at positions k*ln2/2, against math.exp at "
+        "arbitrary positions)",
         "the generator of crossover masks delivers independent Bernoulli(xoprob_k) indicators (C02's contract); "
         "the enumeration weights every mask accordingly",
+        "pair oracle (deep selfing / many markers / float positions): allele covariances from the enumeration of the two-locus "
+        "process per marker pair, summed over pairs; justified by the theorems C12.pair_marginal and Variance.cov_expand "
+        "(not trusted: proved), evaluated in floats for nself >= 4 / inf (60 generations) / arbitrary positions",
         "harness instrument: module global `numpy` of the genic classes replaced by a proxy whose `empty` returns "
         "NaN-filled storage (allowed by numpy.empty's contract) so never-written cells are observable",
         "statistics.NormalDist for the selection intensity pdf(ppf(1-p))/p (independent of scipy)",
     ]
     ASSUMPTIONS = [
         "genotypes are coded {0,1} per phase; inbred parents for the two-/three-/four-way schemes",
-        "markers are given sorted by chromosome and position (group_vrnt keeps the order)",
-        "effects are integers or half-integers and positions multiples of 1/2, so every float operation of the "
-        "pow2 runs is exact; comparison tolerance 1e-9 relative (1e-8 for nself = inf against 34 generations)",
-        "selfing = single-seed descent (one selfed offspring per generation), doubled haploid from one gamete",
+        "markers are given sorted by chromosome (group_vrnt keeps the order); positions within a group may be unsorted",
+        "effects are integers or half-integers (times a power of ten in the magnitude cases); comparison tolerance 1e-10 "
+        "(+ 4e-15 * largest position) relative to 4 * sum|u_s| * sum|u_t|",
+        "selfing = single-seed descent (one selfed offspring per generation), doubled haploid from one gamete; "
+        "nself = inf compared with 60 generations (pair oracle)",
     ]
 
     # ------------------------------------------------------------------ generation
@@ -365,7 +719,7 @@ class C12(Prop):
             g[1][b] = list(g[1][a])
         return g
 
-    def _mk_layout(self, rng, pmax):
+    def _mk_layout(self, rng, pmax, offsets=True):
         nchr = rng.choice([1, 1, 2, 2, 3])
         sizes = []
         left = pmax
@@ -377,42 +731,108 @@ class C12(Prop):
             left -= s
         g2 = []
         for s in sizes:
-            pos = rng.choice([0, 0, 1, 3])
+            pos = rng.choice([0, 0, 1, 3] + ([21, 40, 500, 50000] if offsets else []))
             for k in range(s):
                 if k:
                     pos += rng.choice([0, 1, 1, 1, 2, 2, 3, 5])
                 g2.append(pos)
         return sizes, g2
 
-    def _mk_u(self, rng, p, nt):
+    def _mk_posf(self, rng, sizes, tight=False):
+        """arbitrary float positions (Morgan) for the real Haldane function"""
+        gaps = [0.0, 1e-8, 1e-5, 1e-3, 0.01, 0.05, 0.1, 0.3] if tight else \
+               [0.0, 1e-8, 1e-5, 1e-3, 0.01, 0.1, 0.25, 0.5, 1.0, 3.0, 40.0]
+        out = []
+        for s in sizes:
+            pos = rng.choice([0.0, 0.0, 0.013, 7.5, 12.0, 250.0, 25000.0, 1e9])
+            grp = []
+            for k in range(s):
+                if k:
+                    pos = pos + rng.choice(gaps)
+                grp.append(pos)
+            if s >= 3 and rng.random() < 0.25:          # positions not sorted within the group
+                rng.shuffle(grp)
+            out.extend(grp)
+        return [canon.enc(float(x)) for x in out]
+
+    def _mk_u(self, rng, p, nt, scale=1):
         style = rng.random()
         vals = [-3, -2, -1, 1, 2, 3, 0] if style < 0.6 else [F(-3, 2), F(-1, 2), F(1, 2), 1, 2, F(5, 2), 0]
+        if scale != 1:
+            return [[canon.enc(float(rng.choice(vals)) * scale) for _ in range(nt)] for _ in range(p)]
         return [[canon.enc(rng.choice(vals)) for _ in range(nt)] for _ in range(p)]
 
-    def _vmat_case(self, rng, tier, scheme=None):
+    def _mk_forms(self, rng, c):
+        """rarely used argument forms and memory layouts (same values)"""
+        if rng.random() < 0.3:
+            lay = {}
+            if rng.random() < 0.5:
+                lay["geno"] = rng.choice(["F", "view", "rev"])
+            if rng.random() < 0.5:
+                lay["u"] = rng.choice(["F", "view", "rev"])
+            if rng.random() < 0.4:
+                lay["genpos"] = rng.choice(["view", "rev"])
+            if lay:
+                c["layout"] = lay
+        if rng.random() < 0.25:
+            c["nself_form"] = rng.choice(["float_inf", "math_inf", "np_f64_inf"]) if c["nself"] is None else \
+                rng.choice(["npint", "npint8"])
+        if rng.random() < 0.15 and c.get("mem") not in (None, "default"):
+            c["mem_form"] = "npint"
+        if rng.random() < 0.2:
+            nchr = len(c["chr_sizes"])
+            start = rng.choice([-3, 0, 2, 5, 17])
+            labs, cur = [], start
+            for _ in range(nchr):
+                labs.append(cur)
+                cur += rng.choice([1, 2, 5, 11])
+            c["chr_labels"] = labs
+        if rng.random() < 0.1:
+            c["taxa_grp_none"] = True
+        if rng.random() < 0.3:
+            c["nprogeny"] = rng.choice([1, 2, 3, 40])
+            c["nmating"] = rng.choice([1, 2, 5])
+
+    def _vmat_case(self, rng, tier, scheme=None, flavour=None):
         scheme = scheme or rng.choice(["two", "two", "three", "three", "four", "dihybrid", "dihybrid"])
+        flavour = flavour or rng.choice(["plain"] * 5 + ["deep", "deep", "float", "float", "float"])
         n = {"two": rng.choice([2, 3, 4]), "three": rng.choice([2, 3]), "four": rng.choice([2, 2, 3]),
              "dihybrid": rng.choice([1, 2, 3])}[scheme]
         pmax = {"two": 6, "three": 5, "four": 4, "dihybrid": 5}[scheme]
+        if flavour == "deep":
+            pmax = 3
+            if scheme in ("three", "four"):
+                n = 2
+            n = min(n, 3)
         sizes, g2 = self._mk_layout(rng, rng.randint(2, pmax))
         p = len(g2)
         nt = rng.choice([1, 2, 2, 3]) if scheme != "four" else rng.choice([1, 2])
         cov = rng.random() < 0.35
         via = rng.choice(["algmod", "gmod"]) if cov else rng.choice(["algmod", "gmod", "factory", "factory_algmod"])
-        mems = [1, 2, 3, 7, None]
-        mem = rng.choice(mems)
+        mems = [1, 2, 3, 7, None, "default", max(sizes)]
+        mem = rng.choice([1, 2]) if rng.random() < 0.45 else rng.choice(mems)
         mem2 = rng.choice([x for x in mems if x != mem])
         nself = rng.choice([0, 0, 0, 1, 1, 2, 3, None])
-        if nself is None and p > 4:
-            nself = 2
         if nself in (2, 3) and p > 4:
             nself = 1
         mapfn = rng.choice(["pow2", "pow2", "pow2", "haldane", "cap"])
+        c = {"kind": "vmat", "scheme": scheme, "cov": cov, "via": via, "geno": self._mk_geno(rng, scheme, n, p),
+             "u": self._mk_u(rng, p, nt), "chr_sizes": sizes, "genpos2": g2, "mapfn": mapfn,
+             "mem": mem, "mem2": mem2, "nself": nself}
+        if flavour == "deep":
+            c["nself"] = rng.choice([4, 5, 6, 7, 7, 8, 8, 10, 20])
+            c["mapfn"] = rng.choice(["pow2", "haldane_f", "haldane_f"])
+        if flavour == "float":
+            c["mapfn"] = "haldane_f"
+            if rng.random() < 0.3:
+                c["u"] = self._mk_u(rng, p, nt, scale=rng.choice([1e-4, 1e4, 1e-8]))
+        if c["mapfn"] == "haldane_f":
+            c["genposf"] = self._mk_posf(rng, sizes, tight=(flavour == "deep"))
         perm = list(range(n))
         rng.shuffle(perm)
-        return {"kind": "vmat", "scheme": scheme, "cov": cov, "via": via, "geno": self._mk_geno(rng, scheme, n, p),
-                "u": self._mk_u(rng, p, nt), "chr_sizes": sizes, "genpos2": g2, "mapfn": mapfn,
-                "mem": mem, "mem2": mem2, "nself": nself, "perm": perm}
+        c["perm"] = perm
+        self._mk_forms(rng, c)
+        return c
 
     def _genic_case(self, rng):
         scheme = rng.choice(["two", "two", "dihybrid", "dihybrid", "three", "three", "four"])
@@ -421,20 +841,27 @@ class C12(Prop):
         p = len(g2)
         nt = rng.choice([1, 2, 3])
         via = rng.choice(["algmod", "gmod", "gmod_nomem"] + (["factory"] if scheme == "two" else []))
-        return {"kind": "genic", "scheme": scheme, "via": via, "geno": self._mk_geno(rng, scheme, n, p),
-                "u": self._mk_u(rng, p, nt), "chr_sizes": sizes, "genpos2": g2, "mapfn": "pow2", "mem": rng.choice([1, 2, 1000])}
+        c = {"kind": "genic", "scheme": scheme, "via": via, "geno": self._mk_geno(rng, scheme, n, p),
+             "u": self._mk_u(rng, p, nt), "chr_sizes": sizes, "genpos2": g2, "mapfn": "pow2", "mem": rng.choice([1, 2, 1000])}
+        if rng.random() < 0.3:
+            c["layout"] = {"geno": rng.choice(["F", "view", "rev"]), "u": rng.choice(["F", "view", None])}
+        return c
 
     def _uc_case(self, rng):
-        c = self._vmat_case(rng, "quick", scheme=rng.choice(["two", "two", "three", "four", "dihybrid"]))
+        c = self._vmat_case(rng, "quick", scheme=rng.choice(["two", "two", "three", "four", "dihybrid"]), flavour="plain")
         c["kind"] = "uc"
         c["cov"] = False
-        c["nself"] = rng.choice([0, 0, 1, 2])
+        c["nself"] = rng.choice([0, 0, 1, 2, 4, 7])
+        if c["nself"] >= 4 and _nmark(c) > 3:
+            c["nself"] = 1
         c["mapfn"] = rng.choice(["pow2", "haldane"])
         nt = len(c["u"][0])
-        c["beta"] = [canon.enc(rng.choice([0, 1, -2, F(3, 2), 10])) for _ in range(nt)]
+        c["beta"] = [canon.enc(rng.choice([0, 1, -2, F(3, 2), 10, 1000])) for _ in range(nt)]
         c["unique_parents"] = rng.random() < 0.6
-        c["upper_percentile"] = rng.choice(["1/10", "1/4", "1/2", "1/20"])
-        for k in ("via", "mem", "mem2", "perm"):
+        c["upper_percentile"] = rng.choice(["1/10", "1/4", "1/2", "1/20", "1/1000", "9/10"])
+        c["uc_class"] = rng.choice(UC_CLASSES)
+        c["uc_method"] = rng.choice(["gpmod", "xmap", "protocol"])
+        for k in ("via", "mem", "mem2", "perm", "nself_form", "mem_form"):
             c.pop(k, None)
         n = len(c["geno"][0])
         if c["unique_parents"] and n < NPARENT[c["scheme"]]:
@@ -443,52 +870,159 @@ class C12(Prop):
 
     def _util_case(self, rng):
         fn = rng.choice(["rprob_filial", "cov_D1s", "cov_D2s", "cov_D1st", "cov_D2st"])
-        r = [canon.enc(rng.choice([0, HALF, F(1, 4), F(1, 8), F(3, 8), F(7, 16), F(1, 32), F(5, 16)]))
+        r = [canon.enc(rng.choice([0, HALF, F(1, 4), F(1, 8), F(3, 8), F(7, 16), F(1, 32), F(5, 16), F(1, 1024), F(1, 2 ** 20)]))
              for _ in range(rng.randint(1, 5))]
-        ns = rng.choice([0, 1, 2, 3, 5, None])
+        ns = rng.choice([0, 1, 2, 3, 5, 6, 7, 8, 9, 10, 20, None])
         if fn == "rprob_filial":
-            ns = rng.choice([1, 2, 3, 4, 6, None])
+            ns = rng.choice([1, 2, 3, 4, 6, 7, 8, 9, 11, 21, None])
         t = rng.choice([0, 0, 1, 2, 3]) if fn.endswith("st") else 0
         return {"kind": "util", "fn": fn, "r": r, "nself": ns, "t": t}
 
     def _chunks_case(self, rng):
         lst = rng.randint(0, 6)
-        ln = rng.choice([0, 1, 2, 3, 4, 5, 6, 7, 8, 9, 12])
-        return {"kind": "chunks", "lst": lst, "lsp": lst + ln, "step": rng.choice([1, 2, 3, 4, 7, 12, 13])}
+        step = rng.choice([1, 2, 3, 4, 7, 12, 13, 1024])
+        ln = rng.choice([0, 1, 2, 3, 4, 5, 6, 7, 8, 9, 12, step, 2 * step, 3 * step, 2 * step + 1, max(step - 1, 0)])
+        return {"kind": "chunks", "lst": lst, "lsp": lst + ln, "step": step}
 
     def _reject_case(self, rng):
-        c = self._vmat_case(rng, "quick", scheme=rng.choice(["two", "two", "three", "dihybrid"]))
+        c = self._vmat_case(rng, "quick", scheme=rng.choice(["two", "two", "three", "dihybrid"]), flavour="plain")
         c["kind"] = "reject"
         c["cov"] = False
+        c["mapfn"] = "pow2"
         c["variant"] = rng.choice(["ungrouped", "no_genpos", "mem_zero", "nself_negative", "valid"])
         c["nself"] = rng.choice([0, 1])
         c["mem"] = rng.choice([1, 2, None])
-        for k in ("mem2", "perm", "via"):
+        for k in ("mem2", "perm", "via", "layout", "nself_form", "mem_form", "chr_labels", "taxa_grp_none"):
             c.pop(k, None)
         return c
+
+    def _hist_case(self, rng):
+        family = rng.choice(["vmat"] * 5 + ["genic"])
+        scheme = rng.choice(["two", "two", "two", "three", "four", "dihybrid"])
+        if family == "genic":
+            scheme = rng.choice(["two", "two", "dihybrid", "three"])
+        n = {"two": rng.choice([2, 3]), "three": 2, "four": 2, "dihybrid": rng.choice([1, 2])}[scheme]
+        if family == "genic" and scheme == "three":
+            n = 2
+        sizes, g2 = self._mk_layout(rng, rng.randint(2, 4), offsets=False)
+        p = len(g2)
+        nt = rng.choice([1, 2])
+        cov = family == "vmat" and rng.random() < 0.25
+        vias = ["algmod", "gmod"] if cov else ["factory", "factory", "factory", "gmod", "algmod", "factory_algmod"]
+        if family == "genic":
+            vias = ["algmod", "gmod"] + (["factory", "factory"] if scheme == "two" else [])
+        via = rng.choice(vias)
+        c = {"kind": "hist", "family": family, "scheme": scheme, "cov": cov, "via": via,
+             "geno": self._mk_geno(rng, scheme, n, p), "u": self._mk_u(rng, p, nt), "chr_sizes": sizes,
+             "genpos2": g2, "mapfn": rng.choice(["pow2", "pow2", "cap", "haldane"])}
+        if family == "genic":
+            c["mapfn"] = "pow2"
+        ns0 = rng.choice([0, 0, 1, 2])
+        mem0 = rng.choice([None, 1, 2, "default"])
+
+        def call(**kw):
+            d = {"op": "call", "nself": ns0, "mem": mem0}
+            if family == "genic":
+                d = {"op": "call", "mem": rng.choice([1, 2, 1000])}
+            d.update(kw)
+            return d
+
+        def change():
+            opts = ["flip", "flip", "set_u"]
+            if family == "vmat":
+                opts += (["mapfn", "mapfn"] if c["mapfn"] != "haldane" else ["flip"]) + ["set_genpos", "set_genpos", "set_genpos_inplace", "nself", "mutres", "mutres"]
+            else:
+                opts += ["mutres"]
+            return rng.choice(opts)
+
+        steps = [call()]
+        cur_map = c["mapfn"]
+        for _ in range(rng.choice([1, 1, 2, 3])):
+            ch = change()
+            kw = {}
+            if ch == "flip":
+                steps.append({"op": "flip", "taxon": rng.randrange(n), "marker": rng.randrange(p), "phase": rng.randint(0, 1)})
+            elif ch == "set_u":
+                steps.append({"op": "set_u", "i": rng.randrange(p), "t": rng.randrange(nt), "v": canon.enc(rng.choice([4, -5, F(7, 2)]))})
+            elif ch in ("set_genpos", "set_genpos_inplace"):
+                _, g2n = self._mk_layout(rng, p, offsets=False)
+                st, newg = 0, []
+                for s in sizes:                      # new positions, same linkage-group sizes
+                    pos = rng.choice([0, 2, 4])
+                    for k in range(s):
+                        if k:
+                            pos += rng.choice([0, 1, 2, 4])
+                        newg.append(pos)
+                steps.append({"op": "set_genpos", "genpos2": newg, "inplace": ch.endswith("inplace")})
+            elif ch == "mapfn":
+                cur_map = "cap" if cur_map == "pow2" else "pow2"
+                kw["mapfn"] = cur_map
+            elif ch == "nself":
+                kw["nself"] = rng.choice([x for x in [0, 1, 2, 3, None] if x != ns0])
+            elif ch == "mutres":
+                ncalls = sum(1 for s in steps if s["op"] == "call")
+                steps.append({"op": "mutres", "which": rng.randrange(ncalls), "how": rng.choice(["scale", "fill", "reorder"])})
+            if cur_map != c["mapfn"] and "mapfn" not in kw:
+                kw["mapfn"] = cur_map
+            if family == "vmat" and not cov and via.startswith("factory") and rng.random() < 0.3:
+                steps.append({"op": "uc", "nself": ns0 if ns0 is not None else 1, "mapfn": cur_map if cur_map != "cap" else "pow2",
+                              "unique_parents": n >= NPARENT[scheme] and rng.random() < 0.5,
+                              "upper_percentile": rng.choice(["1/10", "1/4"]), "uc_class": rng.choice(UC_CLASSES),
+                              "uc_method": rng.choice(["gpmod", "xmap", "protocol"])})
+            else:
+                steps.append(call(**kw))
+        c["steps"] = steps
+        return c
+
+    def _wide_case(self, rng, p=None, tier="quick", scheme=None, cov=None):
+        """one long linkage group, two taxa with complementary genotypes (a single parental allele pattern per marker, so
+        that the per-distance pair enumeration stays cheap)"""
+        p = p or rng.choice([128, 130, 200, 1030, 1030] + ([4100] if tier == "thorough" else []))
+        scheme = scheme or rng.choice(SCHEMES)
+        cov = (rng.random() < 0.4) if cov is None else cov
+        if p > 2000:
+            scheme = scheme if scheme != "four" else "three"
+            cov = False
+        elif p > 1000 and tier != "thorough":                      # keep the every-commit tier fast
+            scheme = scheme if scheme in ("two", "dihybrid") else "two"
+            cov = False
+        gap = rng.choice([1e-3, 0.01, 0.0005])
+        posf = [canon.enc(float(k * gap)) for k in range(p)]
+        ones, zeros = [1] * p, [0] * p
+        geno = [[ones, zeros], [zeros, ones]] if scheme == "dihybrid" else [[ones, zeros], [list(ones), list(zeros)]]
+        u = [[canon.enc(rng.choice([1, 1, 1, 2, -1, F(1, 2)]))] for _ in range(p)]
+        via = rng.choice(["algmod", "gmod"] + ([] if cov else ["factory", "factory_algmod"]))
+        return {"kind": "wide", "scheme": scheme, "cov": cov, "via": via,
+                "geno": geno, "u": u, "chr_sizes": [p], "genposf": posf, "mapfn": "haldane_f",
+                "mem": "default", "mem2": rng.choice([None, p // 2, 64, p]) if p < 2000 else "same",
+                "nself": rng.choice([0, 0, 1, 7]) if p < 2000 else rng.choice([0, 1]), "gap": canon.enc(gap)}
 
     def generate(self, rng, n, tier):
         out = []
         for i in range(n):
             r = rng.random()
-            if r < 0.04:
+            if r < 0.03:
                 out.append(self._reject_case(rng))
-            elif r < 0.62:
+            elif r < 0.50:
                 out.append(self._vmat_case(rng, tier))
-            elif r < 0.74:
+            elif r < 0.62:
+                out.append(self._hist_case(rng))
+            elif r < 0.72:
                 out.append(self._genic_case(rng))
-            elif r < 0.86:
+            elif r < 0.84:
                 out.append(self._uc_case(rng))
-            elif r < 0.94:
+            elif r < 0.93:
                 out.append(self._util_case(rng))
-            else:
+            elif r < 0.985:
                 out.append(self._chunks_case(rng))
+            else:
+                out.append(self._wide_case(rng, tier=tier))
         return out
 
     def corpus(self):
         inb = lambda rows: [rows, [list(r) for r in rows]]
         base = {"kind": "vmat", "scheme": "two", "cov": False, "via": "algmod",
-                "geno": inb([[0, 1, 1, 0], [1, 0, 1, 1], [0, 1, 1, 0]]),
+                "geno": inb([[0, 1, 1, 0], [1, 0, 0, 1], [0, 1, 1, 0]]),
                 "u": [[1, 2], [2, -1], [-3, 1], [1, 1]], "chr_sizes": [3, 1], "genpos2": [0, 1, 3, 0],
                 "mapfn": "pow2", "mem": 2, "mem2": None, "nself": 0, "perm": [2, 0, 1]}
         out = [dict(base)]
@@ -502,6 +1036,12 @@ class C12(Prop):
                         chr_sizes=[3], genpos2=[0, 1, 2], perm=[1, 2, 0], nself=1))
         out.append(dict(base, scheme="dihybrid", geno=[[[0, 1, 1, 0], [1, 0, 1, 1]], [[1, 1, 0, 0], [1, 0, 0, 1]]],
                         perm=[1, 0], nself=0, cov=True))
+        # covariance classes with every linkage group cut into several chunks, two traits with unequal effects
+        out.append(dict(base, cov=True, mem=1, mem2=None, nself=1))
+        out.append(dict(base, cov=True, mem=2, mem2=3, scheme="three", geno=inb([[0, 1, 1, 0], [1, 0, 0, 1]]), perm=[1, 0]))
+        out.append(dict(base, cov=True, mem=2, mem2=None, scheme="four", geno=inb([[0, 1, 1, 0], [1, 0, 0, 1]]), perm=[1, 0]))
+        out.append(dict(base, cov=True, mem=1, mem2=3, scheme="dihybrid", via="gmod",
+                        geno=[[[0, 1, 1, 0], [1, 0, 0, 1]], [[1, 1, 0, 0], [1, 0, 1, 1]]], perm=[1, 0]))
         # regression cases for fix D33 (self-hybrid cells [r,f,f], [a,b,c,c], dihybrid [i,i] were skipped and stayed 0)
         out.append({"kind": "vmat", "scheme": "three", "cov": False, "via": "algmod", "geno": inb([[0, 1], [1, 0]]),
                     "u": [[1], [1]], "chr_sizes": [2], "genpos2": [0, 1], "mapfn": "pow2", "mem": None, "mem2": 1,
@@ -509,6 +1049,84 @@ class C12(Prop):
         out.append({"kind": "vmat", "scheme": "dihybrid", "cov": False, "via": "algmod", "geno": [[[0, 1]], [[1, 0]]],
                     "u": [[1], [1]], "chr_sizes": [2], "genpos2": [0, 1], "mapfn": "pow2", "mem": None, "mem2": 1,
                     "nself": 0, "perm": [0]})
+        # --- round 3: deep selfing (the finite-selfing correction must be applied for EVERY finite k), tight linkage
+        tight = {"kind": "vmat", "scheme": "two", "cov": False, "via": "algmod", "geno": inb([[1, 0, 1], [0, 1, 0]]),
+                 "u": [[1], [1], [2]], "chr_sizes": [3], "genposf": [canon.enc(0.0), canon.enc(0.001), canon.enc(0.011)],
+                 "mapfn": "haldane_f", "mem": None, "mem2": 1, "nself": 7, "perm": [1, 0]}
+        for ns in (6, 7, 8, 10, 20):
+            out.append(dict(tight, nself=ns))
+        out.append(dict(tight, scheme="dihybrid", geno=[[[1, 0, 1], [0, 1, 1]], [[0, 1, 0], [1, 1, 0]]], nself=7, via="factory"))
+        out.append(dict(tight, scheme="three", geno=inb([[1, 0, 1], [0, 1, 0], [1, 1, 0]]), nself=8, perm=[2, 0, 1], cov=True))
+        out.append(dict(tight, scheme="four", geno=inb([[1, 0, 1], [0, 1, 0]]), nself=7, mem=2, mem2="default"))
+        # --- positions beyond 10 Morgan / linkage groups that do not start at 0 / huge common offsets / tiny distances
+        out.append(dict(base, genpos2=[24, 25, 27, 0], mem=None, mem2=2))                         # 12.0 .. 13.5 map units
+        out.append(dict(base, genpos2=[40, 41, 43, 90], mapfn="haldane", via="factory"))         # 13.9 .. 31 Morgan
+        out.append(dict(tight, nself=0, genposf=[canon.enc(12.0), canon.enc(12.3), canon.enc(12.7)]))
+        out.append(dict(tight, nself=1, genposf=[canon.enc(25000.0), canon.enc(25000.25), canon.enc(25000.5)], via="gmod"))
+        out.append(dict(tight, nself=0, genposf=[canon.enc(1e9), canon.enc(1e9 + 0.5), canon.enc(1e9 + 1.0)]))
+        out.append(dict(tight, nself=0, genposf=[canon.enc(0.0), canon.enc(1e-8), canon.enc(1e-5)]))      # repulsion at r ~ 1e-8
+        out.append(dict(tight, nself=2, genposf=[canon.enc(0.5), canon.enc(0.0), canon.enc(0.2)]))        # unsorted within the group
+        out.append(dict(tight, nself=0, u=[[canon.enc(1e-8)], [canon.enc(1e-8)], [canon.enc(2e-8)]]))     # tiny effects
+        # --- argument forms / layouts / labels
+        out.append(dict(base, layout={"geno": "F", "u": "F"}, nself_form="npint", nself=2, mem_form="npint"))
+        out.append(dict(base, layout={"geno": "view", "u": "view", "genpos": "view"}, chr_labels=[-3, 11], taxa_grp_none=True))
+        out.append(dict(base, nself=None, nself_form="float_inf", mem="default", mem2=3, via="gmod"))
+        out.append(dict(base, chr_sizes=[2, 2], genpos2=[0, 1, 0, 2], mem=2, mem2=1))                     # mem divides every group exactly
+        out.append(dict(base, scheme="four", geno=inb([[0, 1, 1, 0], [1, 0, 1, 1]]), u=[[1], [2], [-1], [3]], chr_sizes=[1, 2, 1],
+                        genpos2=[5, 0, 1, 2], perm=[1, 0], mem=2, mem2=1))                                 # one-marker groups, four-way
+        # --- every entry point (4 schemes x {4 variance routes, 2 covariance routes}) with three stress cases:
+        #  A  positions beyond 10 map units, Fortran-ordered inputs, reversed-stride positions, linkage-group labels <= 0 and
+        #     non-consecutive, group sizes that mem divides exactly, other nmating / nprogeny
+        #  B  real Haldane function at 1e9 + {0, 0.5, 0.5 + 1e-5} and a second group in repulsion 1e-8 Morgan apart
+        #  C  20 selfing generations at tight linkage, one progeny
+        for sch in SCHEMES:
+            g4 = [[[0, 1, 1, 0], [1, 0, 0, 1]], [[1, 1, 0, 0], [1, 0, 1, 1]]] if sch == "dihybrid" else inb([[0, 1, 1, 0], [1, 0, 0, 1]])
+            g5 = [[[0, 1, 1, 0, 1], [1, 0, 0, 1, 0]], [[1, 1, 0, 0, 1], [1, 0, 1, 1, 0]]] if sch == "dihybrid" \
+                else inb([[0, 1, 1, 1, 0], [1, 0, 0, 0, 1]])
+            for cv, via in [(False, "algmod"), (False, "gmod"), (False, "factory"), (False, "factory_algmod"), (True, "algmod"), (True, "gmod")]:
+                out.append(dict(base, scheme=sch, cov=cv, via=via, geno=g4, perm=[1, 0], chr_sizes=[2, 2], chr_labels=[-2, 0],
+                                genpos2=[22, 23, 41, 44], mem=1 if cv else 2, mem2=None, nself=1, nmating=3, nprogeny=2,
+                                layout={"geno": "F", "u": "F", "genpos": "rev"}, mapfn="haldane" if cv else "pow2"))
+                out.append(dict(base, scheme=sch, cov=cv, via=via, geno=g5, perm=[1, 0], chr_sizes=[3, 2], mapfn="haldane_f",
+                                u=[[1, 2], [2, -1], [-3, 1], [1, 1], [1, 2]],
+                                genposf=[canon.enc(1e9), canon.enc(1e9 + 0.5), canon.enc(1e9 + 0.5 + 1e-5), canon.enc(0.25), canon.enc(0.25 + 1e-8)],
+                                mem=2, mem2="default", nself=0 if cv else 2))
+                out.append(dict(base, scheme=sch, cov=cv, via=via, geno=[[r[:3] for r in ph] for ph in g4], perm=[1, 0], chr_sizes=[3],
+                                u=[[1, 2], [1, -1], [2, 1]], mapfn="haldane_f", genposf=[canon.enc(12.0), canon.enc(12.001), canon.enc(12.011)],
+                                mem=None, mem2=1, nself=20, nprogeny=1))
+        # --- histories on one factory / pgmat / gmod
+        hb = {"kind": "hist", "family": "vmat", "scheme": "two", "cov": False, "via": "factory",
+              "geno": inb([[0, 1, 1], [1, 0, 1], [1, 1, 0]]), "u": [[1, 2], [2, -1], [-3, 1]], "chr_sizes": [3],
+              "genpos2": [0, 1, 3], "mapfn": "cap"}
+        c0 = {"op": "call", "nself": 0, "mem": None}
+        out.append(dict(hb, steps=[c0, dict(c0, mapfn="pow2")]))                                           # other map function
+        out.append(dict(hb, mapfn="pow2", steps=[c0, {"op": "set_genpos", "genpos2": [0, 4, 5], "inplace": False}, c0]))
+        out.append(dict(hb, mapfn="pow2", steps=[c0, {"op": "set_genpos", "genpos2": [0, 2, 2], "inplace": True}, c0]))
+        out.append(dict(hb, mapfn="pow2", steps=[c0, {"op": "flip", "taxon": 1, "marker": 0}, c0]))
+        out.append(dict(hb, mapfn="pow2", steps=[c0, {"op": "set_u", "i": 1, "t": 0, "v": 5}, c0]))
+        out.append(dict(hb, mapfn="pow2", steps=[c0, {"op": "mutres", "which": 0, "how": "scale"}, c0]))
+        out.append(dict(hb, mapfn="pow2", steps=[c0, {"op": "mutres", "which": 0, "how": "reorder"}, c0, dict(c0, nself=2)]))
+        out.append(dict(hb, mapfn="pow2", steps=[c0, {"op": "flip", "taxon": 0, "marker": 2},
+                                                 {"op": "uc", "nself": 0, "mapfn": "pow2", "unique_parents": True,
+                                                  "upper_percentile": "1/10", "uc_class": "Subset", "uc_method": "gpmod"}]))
+        ucs = {"op": "uc", "nself": 1, "mapfn": "pow2", "unique_parents": False, "upper_percentile": "1/4", "uc_class": "Real", "uc_method": "xmap"}
+        out.append(dict(hb, mapfn="pow2", steps=[ucs, {"op": "flip", "taxon": 1, "marker": 1}, ucs,
+                                                 {"op": "set_u", "i": 2, "t": 1, "v": 6}, ucs]))
+        out.append(dict(hb, mapfn="pow2", scheme="three", geno=inb([[0, 1, 1], [1, 0, 1]]),
+                        steps=[c0, {"op": "flip", "taxon": 0, "marker": 0}, dict(c0, nself=1), {"op": "mutres", "which": 1, "how": "fill"}, c0]))
+        out.append(dict(hb, mapfn="pow2", scheme="dihybrid", via="gmod", geno=[[[0, 1, 1], [1, 0, 1]], [[1, 1, 0], [1, 0, 0]]],
+                        steps=[c0, {"op": "flip", "taxon": 0, "marker": 1, "phase": 1}, c0]))
+        out.append(dict(hb, mapfn="pow2", scheme="three", via="algmod", cov=True, geno=inb([[0, 1, 1], [1, 0, 1]]),
+                        steps=[c0, {"op": "set_u", "i": 0, "t": 1, "v": -4}, dict(c0, mem=1)]))
+        out.append(dict(hb, family="genic", mapfn="pow2", steps=[{"op": "call", "mem": 1000}, {"op": "flip", "taxon": 2, "marker": 1},
+                                                                {"op": "call", "mem": 1000}]))
+        # --- wide linkage groups: > 127 markers (int8 sums), > 1024 markers (default mem = 1024 gives two chunks), > 4096 markers
+        wr = __import__("random").Random(12)
+        out.append(self._wide_case(wr, p=130, scheme="two", cov=False))
+        out.append(self._wide_case(wr, p=130, scheme="four", cov=True))
+        out.append(self._wide_case(wr, p=1030, scheme="two", cov=False))
+        out.append(dict(self._wide_case(wr, p=130, scheme="three", cov=False), nself=7))
+        out.append(dict(self._wide_case(wr, p=130, scheme="dihybrid", cov=True), nself=1))
         # regression cases for fixes D15 (genic diagonal never written), D30 (three-/four-way genic shapes), D32 (mem default)
         g = {"kind": "genic", "scheme": "two", "via": "algmod", "geno": inb([[0, 1, 1], [1, 0, 1]]),
              "u": [[1], [2], [3]], "chr_sizes": [3], "genpos2": [0, 1, 2], "mapfn": "pow2", "mem": 1000}
@@ -517,11 +1135,25 @@ class C12(Prop):
         out.append(dict(g, scheme="three"))
         out.append(dict(g, scheme="four"))
         out.append(dict(g, scheme="dihybrid", via="gmod_nomem"))
-        out.append({"kind": "uc", "scheme": "two", "cov": False, "geno": inb([[0, 1, 1], [1, 0, 1], [1, 1, 1]]),
-                    "u": [[1, 2], [2, -1], [-3, 1]], "beta": [10, "3/2"], "chr_sizes": [3], "genpos2": [0, 1, 3],
-                    "mapfn": "pow2", "nself": 0, "unique_parents": True, "upper_percentile": "1/10"})
+        uc = {"kind": "uc", "scheme": "two", "cov": False, "geno": inb([[0, 1, 1], [1, 0, 1], [1, 1, 1]]),
+              "u": [[1, 2], [2, -1], [-3, 1]], "beta": [10, "3/2"], "chr_sizes": [3], "genpos2": [0, 1, 3],
+              "mapfn": "pow2", "nself": 0, "unique_parents": True, "upper_percentile": "1/10"}
+        out.append(dict(uc))
+        for cname in UC_CLASSES:
+            for meth in ("gpmod", "xmap", "protocol"):
+                out.append(dict(uc, uc_class=cname, uc_method=meth, upper_percentile="1/1000", nself=1, nprogeny=3, nmating=2))
+                out.append(dict(uc, uc_class=cname, uc_method=meth, upper_percentile="9/10", nself=0, unique_parents=False))
+        # dihybrid: selfing a heterozygous parent (configuration [i,i] segregates)
+        out.append(dict(uc, scheme="dihybrid", geno=[[[0, 1, 1], [1, 0, 1]], [[1, 1, 0], [1, 0, 1]]], unique_parents=False,
+                        uc_class="Binary", uc_method="xmap"))
+        out.append(dict(uc, scheme="three", unique_parents=False, nself=7, geno=inb([[0, 1, 1], [1, 0, 1]]), uc_class="Real"))
         out.append({"kind": "util", "fn": "cov_D1s", "r": [0, "1/2", "1/4"], "nself": 0, "t": 0})
         out.append({"kind": "util", "fn": "cov_D2s", "r": [0, "1/2", "1/4"], "nself": None, "t": 0})
+        for k in (7, 8, 9, 21):
+            out.append({"kind": "util", "fn": "rprob_filial", "r": ["1/1024", "1/8", "1/1048576"], "nself": k, "t": 0})
+        for ns in (6, 7, 8, 20):
+            out.append({"kind": "util", "fn": "cov_D1s", "r": ["1/1024", "1/8"], "nself": ns, "t": 0})
+            out.append({"kind": "util", "fn": "cov_D2s", "r": ["1/1024", "1/8"], "nself": ns, "t": 0})
         # regression cases for fix D31 (four-way / dihybrid covariance classes lacked the second trait axis)
         out.append(dict(base, scheme="four", cov=True, via="algmod", geno=inb([[0, 1, 1], [1, 0, 1]]),
                         u=[[1, 2], [2, -1], [-1, 1]], chr_sizes=[3], genpos2=[0, 1, 2], perm=[1, 0], nself=1))
@@ -531,9 +1163,8 @@ class C12(Prop):
             out.append({"kind": "reject", "variant": var, "scheme": "two", "cov": False,
                         "geno": inb([[0, 1, 1], [1, 0, 1]]), "u": [[1], [2], [3]], "chr_sizes": [2, 1],
                         "genpos2": [0, 1, 0], "mapfn": "pow2", "mem": 2, "nself": 0})
-        out.append({"kind": "chunks", "lst": 3, "lsp": 10, "step": 3})
-        out.append({"kind": "chunks", "lst": 3, "lsp": 9, "step": 3})
-        out.append({"kind": "chunks", "lst": 4, "lsp": 4, "step": 2})
+        for lst, lsp, step in ((3, 10, 3), (3, 9, 3), (4, 4, 2), (0, 6, 3), (5, 6, 4), (0, 2048, 1024), (0, 1030, 1024), (2, 3, 1)):
+            out.append({"kind": "chunks", "lst": lst, "lsp": lsp, "step": step})
         return out
 
     def exhaustive(self, tier):
@@ -543,6 +1174,12 @@ class C12(Prop):
         if tier != "thorough":
             return None
         out = []
+        wr = __import__("random").Random(13)
+        out.append(dict(self._wide_case(wr, p=1030, scheme="three", cov=True, tier="thorough"), nself=0))
+        out.append(dict(self._wide_case(wr, p=1030, scheme="four", cov=False, tier="thorough"), nself=1))
+        out.append(dict(self._wide_case(wr, p=4100, scheme="two", cov=False, tier="thorough"), nself=0))
+        out.append(dict(self._wide_case(wr, p=4100, scheme="dihybrid", cov=False, tier="thorough"), nself=1))
+        out.append(dict(self._wide_case(wr, p=4100, scheme="three", cov=False, tier="thorough"), nself=0))
         haps = list(itertools.product((0, 1), repeat=3))
         for a in haps:
             for b in haps:
@@ -563,6 +1200,56 @@ class C12(Prop):
         return out
 
     # ------------------------------------------------------------------ implementation
+    def _run_hist(self, case):
+        m = _mods()
+        pg, gm, mf0 = _build(case)
+        sch = case["scheme"]
+        genic = case.get("family") == "genic"
+        fobj = (m["genic_fcty_two"]() if genic else m["fcty_" + sch]())
+        subs = dict(_hist_subs(case))
+        results, snaps, mutated, calls = [], [], set(), []
+        for ix, step in enumerate(case["steps"]):
+            op = step["op"]
+            if op == "call":
+                sub = subs[ix]
+                if genic:
+                    o = _call_genic(dict(sub, mem=step.get("mem", 1000)), pg, gm, fobj=fobj)
+                else:
+                    o = _call_vmat(sub, pg, gm, m[sub["mapfn"]](), sub["mem"], fobj=fobj)
+                results.append(o)
+                snaps.append(o.mat.copy())
+                calls.append({"step": ix, "M": canon.enc(o.mat), "shape": list(o.mat.shape)})
+            elif op == "uc":
+                sub = subs[ix]
+                calls.append(dict(_call_uc(sub, pg, gm, m[sub["mapfn"]](), fobj=fobj), step=ix))
+            elif op == "set_genpos":
+                new = _genpos_float(dict(case, genpos2=step["genpos2"]))
+                if step.get("inplace"):
+                    pg.vrnt_genpos[:] = new
+                else:
+                    pg.vrnt_genpos = new
+            elif op == "flip":
+                t, i = step["taxon"], step["marker"]
+                phases = (0, 1) if sch != "dihybrid" else (step.get("phase", 0),)
+                for ph in phases:
+                    pg.mat[ph, t, i] = 1 - pg.mat[ph, t, i]
+            elif op == "set_u":
+                gm.u_a[step["i"], step["t"]] = float(_fr(step["v"]))
+            elif op == "mutres":
+                o = results[step["which"]]
+                mutated.add(step["which"])
+                if step["how"] == "scale":
+                    o.mat *= 3.0
+                elif step["how"] == "fill":
+                    o.mat[...] = -7.0
+                else:
+                    o.reorder_taxa(list(range(o.ntaxa))[::-1])
+        stale = [k for k, (o, s) in enumerate(zip(results, snaps))
+                 if k not in mutated and not numpy.array_equal(o.mat, s, equal_nan=True)]
+        shared = [[a, b] for a in range(len(results)) for b in range(a + 1, len(results))
+                  if results[a] is results[b] or numpy.shares_memory(results[a].mat, results[b].mat)]
+        return {"calls": calls, "stale": stale, "shared": shared}
+
     def run_impl(self, case):
         m = _mods()
         k = case["kind"]
@@ -581,7 +1268,7 @@ class C12(Prop):
             return {"out": canon.enc(numpy.asarray(out, dtype=float))}
         if k == "vmat":
             pg, gm, mf = _build(case)
-            snap = (pg.mat.copy(), gm.u_a.copy())
+            snap = (pg.mat.copy(), gm.u_a.copy(), pg.vrnt_genpos.copy())
             o = _call_vmat(case, pg, gm, mf, case["mem"])
             o2 = _call_vmat(case, pg, gm, mf, case["mem2"])
             pgp, gmp, mfp = _build(case, perm=case["perm"])
@@ -589,21 +1276,18 @@ class C12(Prop):
             return {"M": canon.enc(o.mat), "M2": canon.enc(o2.mat), "Mperm": canon.enc(op.mat),
                     "taxa": [str(t) for t in o.taxa], "taxa_in": [str(t) for t in pg.taxa],
                     "taxa_perm": [str(t) for t in op.taxa], "shape": list(o.mat.shape),
-                    "untouched": bool((snap[0] == pg.mat).all() and (snap[1] == gm.u_a).all())}
+                    "untouched": bool((snap[0] == pg.mat).all() and (snap[1] == gm.u_a).all()
+                                      and (snap[2] == pg.vrnt_genpos).all())}
+        if k == "wide":
+            pg, gm, mf = _build(case)
+            o = _call_vmat(case, pg, gm, mf, case["mem"])
+            o2 = o if case["mem2"] == "same" else _call_vmat(case, pg, gm, mf, case["mem2"])
+            return {"M": canon.enc(o.mat), "M2": canon.enc(o2.mat), "shape": list(o.mat.shape)}
+        if k == "hist":
+            return self._run_hist(case)
         if k == "genic":
             pg, gm, mf = _build(case)
-            sch = case["scheme"]
-            via = case["via"]
-            cls = m["genic_" + sch]
-            with _poisoned(m["genic_mod_" + sch]):
-                if via == "algmod":
-                    o = cls.from_algmod(gm, pg, 10, mem=case["mem"])
-                elif via == "gmod":
-                    o = cls.from_gmod(gm, pg, 10, mem=case["mem"])
-                elif via == "gmod_nomem":
-                    o = cls.from_gmod(gm, pg, 10)
-                else:
-                    o = m["genic_fcty_two"]().from_gmod(gm, pg, 10)
+            o = _call_genic(case, pg, gm)
             return {"M": canon.enc(o.mat), "shape": list(o.mat.shape)}
         if k == "reject":
             var = case["variant"]
@@ -617,67 +1301,123 @@ class C12(Prop):
             return {"raised": None, "finite": bool(numpy.isfinite(o.mat).all())}
         if k == "uc":
             pg, gm, mf = _build(case)
-            sch = case["scheme"]
-            UCS = m["ucmod"].UsefulnessCriterionSubsetMateSelectionProblem
-            npar = NPARENT[sch]
-            xm = UCS._calc_xmap(pg.ntaxa, npar, case["unique_parents"])
-            prob = UCS.from_pgmat_gpmod(
-                nparent=npar, ncross=1, nprogeny=10, nself=int(case["nself"]),
-                upper_percentile=float(_fr(case["upper_percentile"])), vmatfcty=m["fcty_" + sch](), gmapfn=mf,
-                unique_parents=bool(case["unique_parents"]), pgmat=pg, gpmod=gm, ndecn=1,
-                decn_space=numpy.arange(len(xm)), decn_space_lower=None, decn_space_upper=None,
-                nobj=len(case["u"][0]))
-            return {"uc": canon.enc(prob.ucmat), "xmap": [[int(v) for v in row] for row in prob.decn_space_xmap]}
+            return _call_uc(case, pg, gm, mf)
         raise ValueError(k)
 
     # ------------------------------------------------------------------ model requests
-    def _setup_req(self, case, mem):
-        mapfn = "cap" if case["mapfn"] == "cap" else "pow2"
-        return {"geno": case["geno"], "u": case["u"],
-                "genpos": [canon.enc(F(k, 2)) for k in case["genpos2"]], "mapfn": mapfn,
-                "chr": _chr_of(case), "mem": mem, "nself": case["nself"]}
+    LEAN_MAX_P = 40          # the interpreted model is asked for the whole matrix only up to this many markers
 
-    def _lean_enum_reqs(self, case, obs):
-        """up to two tuples whose literal enumeration in Lean is small (<= 13 mask bits)"""
-        if case["mapfn"] == "cap" or case["nself"] is None:
+    def _setup_req(self, case, mem):
+        req = {"geno": case["geno"], "u": case["u"], "chr": _chr_of(case), "mem": _mem_model(mem), "nself": case.get("nself", 0)}
+        if _is_f(case):
+            req.update(mapfn="table", rmat=_rmat_table(case), genpos=[0] * _nmark(case))
+        else:
+            req.update(mapfn="cap" if case["mapfn"] == "cap" else "pow2", genpos=[canon.enc(F(k, 2)) for k in case["genpos2"]])
+        return req
+
+    def _lean_enum_reqs(self, case, M):
+        """up to two tuples whose literal enumeration in Lean is small (<= 11 mask bits; one tuple above 9 bits)"""
+        if case["mapfn"] == "cap" or case["nself"] is None or _is_f(case):
             return []
         sch = case["scheme"]
-        p = len(case["genpos2"])
+        p = _nmark(case)
         n = len(case["geno"][0])
         nme = 1 + 2 * case["nself"] + {"two": 0, "three": 1, "four": 2, "dihybrid": 2}[sch]
-        if p * nme > 13:
+        if p * nme > 11:
+            return []
+        if _sorted_order(case) != list(range(p)):
             return []
         xs = [canon.enc(x) for x in _xs_of(case)]
         tups = _all_tuples(sch, n)
         # deterministic choice: first off-diagonal tuple and the last tuple
-        pick = [t for t in tups if not _is_skipped_diagonal(sch, t)][:1] + tups[-1:]
+        pick = [t for t in tups if not _is_skipped_diagonal(sch, t)][:1] + (tups[-1:] if p * nme <= 9 else [])
         nt = len(case["u"][0])
         reqs = []
         for tup in pick:
             haps, esch = _tuple_haps(sch, case["geno"], tup)
             s, t = (0, nt - 1) if case["cov"] else (nt - 1, nt - 1)
-            cell = _get(obs["M"], tup)
-            impl = cell[s][t] if case["cov"] else cell[t]
+            try:
+                cell = _get(M, tup)
+                impl = cell[s][t] if case["cov"] else cell[t]
+            except (IndexError, TypeError):
+                continue
             reqs.append({"op": "c12.spec_enum", "scheme": esch, "xs": xs, "nself": case["nself"], "haps": haps,
                          "u": [row[s] for row in case["u"]], "w": [row[t] for row in case["u"]],
                          "impl": impl if impl not in ("nan", "inf", "-inf") else 10 ** 30,
                          "_tuple": list(tup)})
         return reqs
 
+    def _vmat_reqs(self, sub, M):
+        # small cases are answered by the LITERAL loop transcription (zeros, += over chunk blocks, *= 0.25, mirror loop;
+        # proved equal to the closed forms in Props/C12.loops_eq_closed), the others by the closed forms
+        n = len(sub["geno"][0])
+        small = n ** NPARENT[sub["scheme"]] * _nmark(sub) <= 60 and not _is_f(sub)
+        req = dict(self._setup_req(sub, sub["mem"]), op="c12.vmat_loop" if small else "c12.vmat", scheme=sub["scheme"], cov=sub["cov"])
+        return [req] + self._lean_enum_reqs(sub, M)
+
+    def _genic_req(self, sub):
+        return dict(self._setup_req(dict(sub, nself=0), sub.get("mem", 1000)), op="c12.genic", ploidy=2, scheme=sub["scheme"])
+
+    # The driver is a pure function of the request.  Answers are memoised per process so that the self-test (the same
+    # cases evaluated once per mutant) does not recompute identical model matrices; a request is sent at most once.
+    _answer_cache = {}
+    _sent = {}
+
+    @staticmethod
+    def _rkey(r):
+        import json
+        return json.dumps(r, sort_keys=True, separators=(",", ":"))
+
     def requests(self, case, obs):
+        full = self._requests(case, obs)
+        mask = [self._rkey(r) not in self._answer_cache for r in full]
+        self._sent[id(obs)] = mask
+        return [r for r, snd in zip(full, mask) if snd]
+
+    def _merge_answers(self, case, obs, answers):
+        full = self._requests(case, obs)
+        mask = self._sent.pop(id(obs), None)
+        if mask is None or len(mask) != len(full) or sum(mask) != len(answers):
+            if len(answers) == len(full):
+                return list(answers)
+            raise RuntimeError("answer bookkeeping out of step")
+        it = iter(answers)
+        out = []
+        for r, snd in zip(full, mask):
+            key = self._rkey(r)
+            if snd:
+                a = next(it)
+                if "err" not in a and len(self._answer_cache) < 20000:
+                    self._answer_cache[key] = a
+                out.append(a)
+            else:
+                out.append(self._answer_cache[key])
+        return out
+
+    def _requests(self, case, obs):
         k = case["kind"]
         if k == "chunks":
             return [{"op": "c12.chunks", "lst": case["lst"], "lsp": case["lsp"], "step": case["step"]}]
         if k == "util":
             return [{"op": "c12.util", "fn": case["fn"], "r": case["r"], "nself": case["nself"], "t": case["t"]}]
         if k == "vmat":
-            req = dict(self._setup_req(case, case["mem"]), op="c12.vmat", scheme=case["scheme"], cov=case["cov"])
-            return [req] + self._lean_enum_reqs(case, obs)
+            return self._vmat_reqs(case, obs["M"])
+        if k == "wide":
+            return []
         if k == "genic":
-            return [dict(self._setup_req(dict(case, nself=0), case["mem"]), op="c12.genic", ploidy=2, scheme=case["scheme"])]
+            return [self._genic_req(case)]
         if k == "uc":
-            req = dict(self._setup_req(case, None), op="c12.vmat", scheme=case["scheme"], cov=False)
-            return [req]
+            return [dict(self._setup_req(case, None), op="c12.vmat", scheme=case["scheme"], cov=False)]
+        if k == "hist":
+            reqs = []
+            for (ix, sub), call in zip(_hist_subs(case), obs["calls"]):
+                if sub["kind"] == "genic":
+                    reqs.append(self._genic_req(sub))
+                elif sub["kind"] == "uc":
+                    reqs.append(dict(self._setup_req(sub, None), op="c12.vmat", scheme=sub["scheme"], cov=False))
+                else:
+                    reqs.extend(self._vmat_reqs(sub, call["M"]))
+            return reqs
         if k == "reject":
             var = case["variant"]
             return [{"op": "c12.validate", "grouped": var != "ungrouped", "has_genpos": var != "no_genpos",
@@ -690,53 +1430,18 @@ class C12(Prop):
     def _close(a, b, rel=1e-9, abs_=1e-9):
         return canon.close(a, b, rel=rel, abs_=abs_)
 
-    def _enum_matrix(self, case, linkage_free=False):
-        """{tuple: covariance matrix over traits (t x t)} by exhaustive enumeration, or None when the
-        case is outside the enumerable range"""
-        if case["mapfn"] == "cap" and not linkage_free:
-            return None
-        p = len(case["genpos2"])
-        ns = case.get("nself", 0)
-        if p > 5 or (ns is None and p > 4) or (ns is not None and ns >= 2 and p > 4):
-            return None
-        sch = case["scheme"]
-        n = len(case["geno"][0])
-        xs = [HALF] * p if linkage_free else _xs_of(case)
-        en = _Enum(xs)
-        U = [[_fr(v) for v in row] for row in case["u"]]
-        nt = len(U[0])
-        gens = INF_GENERATIONS if ns is None else ns
-        out = {}
-        cache = {}
-        for tup in _all_tuples(sch, n):
-            haps, esch = _tuple_haps(sch, case["geno"], tup)
-            key = (esch, tuple(tuple(h) for h in haps))
-            if key not in cache:
-                mean, cov = en.moments(esch, haps, gens)
-                C = [[4 * sum(U[i][s] * U[j][t] * cov[i][j] for i in range(p) for j in range(p))
-                      for t in range(nt)] for s in range(nt)]
-                mu = [2 * sum(U[i][t] * mean[i] for i in range(p)) for t in range(nt)]
-                cache[key] = (mu, C)
-            out[tup] = cache[key]
-        return out
-
-    def _identical(self, scheme, geno, tup):
-        if scheme == "dihybrid":
-            f, m = tup
-            hs = [geno[0][f], geno[1][f], geno[0][m], geno[1][m]]
-        else:
-            hs = [geno[0][t] for t in tup]
-        return all(h == hs[0] for h in hs)
-
-    def _judge_vmat(self, case, obs, answers):
+    def _check_vmat(self, case, M, answers, M2=None, Mp=None, oracle=True):
+        """correspondence + Spec clauses on one reported matrix `M` of the state `case`.
+        -> (bad_corr, fails, enum_checked, lean_enum)"""
         sch = case["scheme"]
         cov = case["cov"]
         n = len(case["geno"][0])
-        nt = len(case["u"][0])
+        U = _U(case)
+        nt = len(U[0])
         tups = _all_tuples(sch, n)
-        model = answers[0]["ok"]
-        M, M2, Mp = obs["M"], obs["M2"], obs["Mperm"]
-        tol = 1e-8 if case["nself"] is None else 1e-9
+        model = answers[0]["ok"] if answers else None
+        tol = _tol(case)
+        sc = [[float(_scale(U, s, t)) for t in range(nt)] for s in range(nt)]
 
         def cell(X, tup):
             c = _get(X, tup)
@@ -746,27 +1451,19 @@ class C12(Prop):
             c = cell(X, tup)
             return [(s, t, c[s][t]) for s in range(nt) for t in range(nt) if c[s][t] is not None]
 
+        def same(a, b, s, t):
+            return not isinstance(a, str) and not isinstance(b, str) and _near(a, b, tol, sc[s][t])
+
         # ---- correspondence: model = implementation, every cell
         bad_corr = []
-        for tup in tups:
-            for (s, t, a), (_, _, b) in zip(entries(M, tup), entries(model, tup)):
-                da = canon.dec(a)
-                if isinstance(da, str) or not self._close(da, canon.dec(b), rel=1e-9):
-                    bad_corr.append((tup, s, t, a, b))
-        corr = not bad_corr
+        if model is not None:
+            for tup in tups:
+                for (s, t, a), (_, _, b) in zip(entries(M, tup), entries(model, tup)):
+                    if not same(canon.dec(a), canon.dec(b), s, t):
+                        bad_corr.append((tup, s, t, a, b))
         # ---- Spec on the implementation's output
         fails = []          # (clause, tuple, text)
-        want_shape = [n] * NPARENT[sch] + ([nt, nt] if cov else [nt])
-        if obs["shape"] != want_shape:
-            fails.append(("shape", None, f"shape {obs['shape']} != {want_shape}"))
-        if not obs["untouched"]:
-            fails.append(("inputs_modified", None, "pgmat.mat or u_a modified"))
-        if obs["taxa"] != obs["taxa_in"]:
-            fails.append(("labels", None, "taxa labels of the result differ from the input's"))
-        want_perm = [obs["taxa_in"][i] for i in case["perm"]]
-        if obs["taxa_perm"] != want_perm:
-            fails.append(("labels", None, "taxa labels not permuted with the taxa"))
-        enum = self._enum_matrix(case)
+        enum = _oracle_matrix(case) if oracle else None
         enum_checked = 0
         for tup in tups:
             ent = entries(M, tup)
@@ -779,12 +1476,12 @@ class C12(Prop):
                 mu, C = enum[tup]
                 for (s, t), v in vals.items():
                     enum_checked += 1
-                    if not self._close(v, C[s][t], rel=tol, abs_=tol):
+                    if not _near(v, C[s][t], tol, sc[s][t]):
                         diag0 = sch != "two" and _is_skipped_diagonal(sch, tup) and all(x == 0 for x in vals.values())
                         fails.append(("enum_selfhybrid" if diag0 else "enum", tup, f"{sch}{list(tup)} trait({s},{t}) reported {float(v)!r} "
                                                     f"enumeration {float(C[s][t])!r}"))
             # (b) zero for genetically identical parents
-            if self._identical(sch, case["geno"], tup):
+            if _identical(sch, case["geno"], tup):
                 if any(v != 0 for v in vals.values()):
                     fails.append(("identical_nonzero", tup, f"identical parents {tup} nonzero"))
             # (c) symmetric in exchangeable parents
@@ -799,7 +1496,7 @@ class C12(Prop):
                 ov = {(s, t): canon.dec(v) for s, t, v in entries(M, o)}
                 for key, v in vals.items():
                     w = ov[key]
-                    if isinstance(w, str) or not self._close(v, w, rel=1e-9):
+                    if not same(v, w, *key):
                         diag0 = sch != "two" and (
                             (_is_skipped_diagonal(sch, tup) and all(x == 0 for x in vals.values())) or
                             (_is_skipped_diagonal(sch, o) and all(x == 0 for x in ov.values())))
@@ -807,84 +1504,239 @@ class C12(Prop):
                                       f"{sch}{list(tup)} = {float(v)!r} but {list(o)} = "
                                       f"{w if isinstance(w, str) else float(w)!r}"))
             # (d) chunk invariance
-            for (s, t, a), (_, _, b) in zip(ent, entries(M2, tup)):
-                db = canon.dec(b)
-                if isinstance(db, str) or not self._close(canon.dec(a), db, rel=1e-9):
-                    fails.append(("chunk", tup, f"mem={case['mem']} gives {a}, mem={case['mem2']} gives {b} at {tup}"))
+            if M2 is not None:
+                for (s, t, a), (_, _, b) in zip(ent, entries(M2, tup)):
+                    if not same(canon.dec(a), canon.dec(b), s, t):
+                        fails.append(("chunk", tup, f"mem={case['mem']} gives {a}, mem={case['mem2']} gives {b} at {tup}"))
             # (e) equivariance under reordering of taxa: M'[k..] = M[perm[k]..]
-            ptup = tuple(case["perm"][k] for k in tup)
-            for (s, t, a), (_, _, b) in zip(entries(Mp, tup), entries(M, ptup)):
-                da, db = canon.dec(a), canon.dec(b)
-                if isinstance(da, str) or isinstance(db, str) or not self._close(da, db, rel=1e-9):
-                    fails.append(("equivariance", tup, f"permuted {tup} {a} != original {ptup} {b}"))
+            if Mp is not None:
+                ptup = tuple(case["perm"][k] for k in tup)
+                for (s, t, a), (_, _, b) in zip(entries(Mp, tup), entries(M, ptup)):
+                    if not same(canon.dec(a), canon.dec(b), s, t):
+                        fails.append(("equivariance", tup, f"permuted {tup} {a} != original {ptup} {b}"))
             # (f) covariance classes: symmetric in the trait pair and diagonal = variance (nonneg)
             for (s, t), v in vals.items():
-                if s == t and v < -1e-9:
+                if s == t and v < -tol * sc[s][t]:
                     fails.append(("negative_variance", tup, f"variance {float(v)} < 0 at {tup}"))
-                if cov and (t, s) in vals and not self._close(v, vals[(t, s)], rel=1e-9):
+                if cov and (t, s) in vals and not same(v, vals[(t, s)], s, t):
                     fails.append(("trait_symmetry", tup, f"cov[{s},{t}] != cov[{t},{s}] at {tup}"))
         # (g) Lean-side Spec: literal enumeration
-        lean_reqs = self._lean_enum_reqs(case, obs)
+        lean_reqs = self._lean_enum_reqs(case, M)
         for rq, ans in zip(lean_reqs, answers[1:]):
             if not ans["ok"]["ok"]:
                 tp = tuple(rq["_tuple"])
                 diag0 = sch != "two" and _is_skipped_diagonal(sch, tp) and canon.dec(rq["impl"]) == 0
                 fails.append(("enum_selfhybrid" if diag0 else "enum", tp, f"Lean enumeration {ans['ok']['enum']} vs reported {rq['impl']} at {rq['_tuple']}"))
-        spec = not fails
-        # non-triviality
-        xs = _xs_of(case) if case["mapfn"] != "cap" else []
-        seg = [i for i in range(len(case["genpos2"]))
-               if len({case["geno"][ph][t][i] for ph in (0, 1) for t in range(n)}) > 1]
-        linked = any(0 < x < HALF and (i in seg) and (i - 1 in seg) for i, x in enumerate(xs))
-        chunked = any(case["mem"] is not None and case["mem"] < s for s in case["chr_sizes"]) or \
-            any(case["mem2"] is not None and case["mem2"] < s for s in case["chr_sizes"])
+        return bad_corr, fails, enum_checked, len(lean_reqs)
+
+    @staticmethod
+    def _shape_ok(M, want):
+        x = M
+        for d in want:
+            if not isinstance(x, list) or len(x) != d:
+                return False
+            x = x[0] if x else None
+        return not isinstance(x, list)
+
+    def _linked_segregating(self, case):
+        n = len(case["geno"][0])
+        p = _nmark(case)
+        if case["mapfn"] == "cap":
+            return False, []
+        seg = [i for i in range(p) if len({case["geno"][ph][t][i] for ph in (0, 1) for t in range(n)}) > 1]
+        ci = _chr_index(case)
+        c = _c_fun(case)
+        linked = any(ci[i] == ci[j] and 0 < c(i, j) < 1 for i in seg for j in seg if i < j)
+        return linked, seg
+
+    def _judge_vmat(self, case, obs, answers):
+        sch, cov = case["scheme"], case["cov"]
+        n = len(case["geno"][0])
+        nt = len(case["u"][0])
+        fails0 = []
+        want_shape = [n] * NPARENT[sch] + ([nt, nt] if cov else [nt])
+        if obs["shape"] != want_shape:
+            return {"corr": False, "spec": False, "nontrivial": True, "detail": f"shape {obs['shape']} != {want_shape}",
+                    "fails": [("shape", None)]}
+        if not obs["untouched"]:
+            fails0.append(("inputs_modified", None, "pgmat.mat, vrnt_genpos or u_a modified"))
+        if obs["taxa"] != obs["taxa_in"]:
+            fails0.append(("labels", None, "taxa labels of the result differ from the input's"))
+        want_perm = [obs["taxa_in"][i] for i in case["perm"]]
+        if obs["taxa_perm"] != want_perm:
+            fails0.append(("labels", None, "taxa labels not permuted with the taxa"))
+        bad_corr, fails, enum_checked, nlean = self._check_vmat(case, obs["M"], answers, M2=obs["M2"], Mp=obs["Mperm"])
+        fails = fails0 + fails
+        linked, seg = self._linked_segregating(case)
+        mems = [_mem_model(case["mem"]), _mem_model(case["mem2"])]
+        chunked = any(mm is not None and mm < s for s in case["chr_sizes"] for mm in mems)
         nontriv = bool(linked and chunked and len(seg) >= 2)
         det = f"vmat[{sch},{'cov' if cov else 'var'},{case['via']},nself={case['nself']},{case['mapfn']}] " \
-              f"enum_cells={enum_checked} lean_enum={len(lean_reqs)}"
+              f"enum_cells={enum_checked} lean_enum={nlean}"
         if bad_corr:
             det += f" MODEL!=IMPL at {bad_corr[0]}"
         if fails:
             det += " SPEC: " + "; ".join(f[2] for f in fails[:3])
-        return {"corr": corr, "spec": spec, "nontrivial": nontriv, "detail": det,
+        return {"corr": not bad_corr, "spec": not fails, "nontrivial": nontriv, "detail": det,
                 "fails": [(f[0], list(f[1]) if f[1] is not None else None) for f in fails]}
 
-    def _judge_genic(self, case, obs, answers):
+    def _judge_hist(self, case, obs, answers):
+        subs = _hist_subs(case)
+        fails, bad_corr, dets = [], [], []
+        pos = 0
+        changed = False
+        for (ix, sub), call in zip(subs, obs["calls"]):
+            kind = sub["kind"]
+            if kind == "genic":
+                ans = answers[pos:pos + 1]
+                pos += 1
+                v = self._check_genic(sub, call, ans)
+            elif kind == "uc":
+                ans = answers[pos:pos + 1]
+                pos += 1
+                v = self._check_uc(sub, call, ans)
+            else:
+                nreq = 1 + len(self._lean_enum_reqs(sub, call["M"]))
+                ans = answers[pos:pos + nreq]
+                pos += nreq
+                n = len(sub["geno"][0])
+                nt = len(sub["u"][0])
+                want_shape = [n] * NPARENT[sub["scheme"]] + ([nt, nt] if sub["cov"] else [nt])
+                if call["shape"] != want_shape:
+                    v = ([("shape",)], [("shape", None, f"shape {call['shape']} != {want_shape}")])
+                else:
+                    bc, fl, _, _ = self._check_vmat(sub, call["M"], ans)
+                    v = (bc, fl)
+            if v[0]:
+                bad_corr.append((ix, v[0][0]))
+            for f in v[1]:
+                fails.append((f[0], f[1], f"request at step {ix} ({kind}, {sub['mapfn']}, nself={sub.get('nself')}): {f[2]}"))
+        for k in obs["stale"]:
+            fails.append(("result_overwritten", None, f"result of request #{k} changed after it was returned (shared storage / later request)"))
+        ncall = len(obs["calls"])
+        det = f"hist[{case.get('family')},{case['scheme']},{case['via']}] steps={[s['op'] for s in case['steps']]} shared={obs['shared']}"
+        if bad_corr:
+            det += f" MODEL!=IMPL at {bad_corr[0]}"
+        if fails:
+            det += " SPEC: " + "; ".join(f[2] for f in fails[:3])
+        linked, seg = self._linked_segregating(dict(case, mapfn="pow2" if case["mapfn"] == "cap" else case["mapfn"]))
+        nontriv = ncall >= 2 and len(case["steps"]) > ncall and len(seg) >= 1
+        return {"corr": not bad_corr, "spec": not fails, "nontrivial": bool(nontriv), "detail": det,
+                "fails": [(f[0], list(f[1]) if f[1] is not None else None) for f in fails]}
+
+    # ---- wide linkage groups: per-distance pair enumeration, summed with numpy
+    WIDE_TUPLES = {"two": [(1, 0)], "three": [(0, 1, 0), (1, 1, 0)], "four": [(0, 1, 0, 1), (1, 0, 0, 0)], "dihybrid": [(1, 0), (0, 0)]}
+    _wide_memo = {}
+
+    def _wide_oracle(self, case):
+        key = self._rkey({k: case.get(k) for k in ("scheme", "geno", "u", "genposf", "nself", "gap")})
+        if key not in self._wide_memo:
+            self._wide_memo[key] = self._wide_oracle_raw(case)
+        return self._wide_memo[key]
+
+    def _wide_oracle_raw(self, case):
+        """{tuple: (value, sum of absolute terms)}: every marker carries the same parental allele pattern and the markers are
+        equally spaced, so Cov(g_i, g_j) = K(|i - j|); K(d) by enumeration of the two-locus process for every distance"""
+        sch = case["scheme"]
+        p = _nmark(case)
+        ns = case["nself"]
+        po = _PairOracle(exact=False)
+        u = numpy.array([float(_fr(r[0])) for r in case["u"]])
+        gf = [float(_fr(v)) for v in case["genposf"]]
+        w = numpy.correlate(u, u, mode="full")[p - 1:]                       # w[d] = sum_i u_i u_{i+d}
+        wa = numpy.correlate(numpy.abs(u), numpy.abs(u), mode="full")[p - 1:]
+        w[1:] *= 2.0
+        wa[1:] *= 2.0
+        out = {}
+        tups = self.WIDE_TUPLES[sch][:1 if p > 2000 else 2]
+        for tup in tups:
+            haps, esch = _tuple_haps(sch, case["geno"], tup)
+            alle = tuple(int(h[0]) for h in haps)
+            assert all(tuple(int(h[i]) for h in haps) == alle for i in (1, p // 2, p - 1))
+            K = numpy.zeros(p)
+            K[0] = po.single(esch, alle, ns)[1]
+            for d in range(1, p):
+                K[d] = po.pair(esch, alle, alle, math.exp(-2.0 * abs(gf[d] - gf[0])), ns)
+            out[tup] = (float(4.0 * (K * w).sum()), float(4.0 * (numpy.abs(K) * wa).sum()))
+        return out
+
+    def _judge_wide(self, case, obs, answers):
+        sch, cov = case["scheme"], case["cov"]
+        tol = 1e-10
+        fails = []
+        M, M2 = obs["M"], obs["M2"]
+        want_shape = [2] * NPARENT[sch] + ([1, 1] if cov else [1])
+        if obs["shape"] != want_shape:
+            return {"corr": False, "spec": False, "nontrivial": True, "detail": f"shape {obs['shape']}", "fails": [("shape", None)]}
+
+        def val(X, tup):
+            c = _get(X, tup)
+            v = canon.dec(c[0][0] if cov else c[0])
+            return v if isinstance(v, str) else float(v)
+
+        oracle = self._wide_oracle(case)
+        scm = max([s for _, s in oracle.values()] + [1e-300])
+        for tup, (want, sc) in oracle.items():
+            got = val(M, tup)
+            if isinstance(got, str) or abs(got - want) > tol * max(sc, 1e-300):
+                fails.append(("enum", tup, f"wide {sch}{list(tup)} reported {got!r}, pairwise enumeration {want!r}"))
+        for tup in _all_tuples(sch, 2):
+            a, b = val(M, tup), val(M2, tup)
+            if isinstance(a, str) or isinstance(b, str) or abs(a - b) > tol * scm:
+                fails.append(("chunk", tup, f"mem={case['mem']} gives {a}, mem={case['mem2']} gives {b} at {tup}"))
+            w = val(M, tup[:-2] + (tup[-1], tup[-2]))
+            if isinstance(a, str) or isinstance(w, str) or abs(a - w) > tol * scm:
+                fails.append(("symmetry", tup, f"not symmetric at {tup}"))
+            if _identical(sch, case["geno"], tup) and a != 0:
+                fails.append(("identical_nonzero", tup, f"identical parents {tup} nonzero"))
+        det = f"wide[{sch},{'cov' if cov else 'var'},{case['via']},p={_nmark(case)},nself={case['nself']}] values={[round(v, 6) for v, _ in oracle.values()]}"
+        if fails:
+            det += " SPEC: " + "; ".join(f[2] for f in fails[:3])
+        return {"corr": True, "spec": not fails, "nontrivial": True, "detail": det,
+                "fails": [(f[0], list(f[1])) for f in fails]}
+
+    def _check_genic(self, case, obs, answers):
         sch = case["scheme"]
         n = len(case["geno"][0])
-        nt = len(case["u"][0])
+        U = _U(case)
+        nt = len(U[0])
         model = answers[0]["ok"]
         M = obs["M"]
-        fails = []
-        bad_corr = []
+        fails, bad_corr = [], []
         want_shape = [n] * NPARENT[sch] + [nt]
         if obs["shape"] != want_shape:
-            fails.append(("shape", None, f"shape {obs['shape']} != {want_shape}"))
-            return {"corr": False, "spec": False, "nontrivial": True, "detail": fails[0][2], "fails": [("shape", None)]}
-        enum = self._enum_matrix(dict(case, nself=0), linkage_free=True)
+            return [("shape",)], [("shape", None, f"shape {obs['shape']} != {want_shape}")]
+        enum = _oracle_matrix(dict(case, nself=0), linkage_free=True)
+        tol = 1e-12
         for tup in _all_tuples(sch, n):
             got = _get(M, tup)
             mod = _get(model, tup)
             for t in range(nt):
+                sc = float(_scale(U, t, t))
                 g = canon.dec(got[t])
-                if isinstance(g, str) or not self._close(g, canon.dec(mod[t])):
+                if isinstance(g, str) or not _near(g, canon.dec(mod[t]), tol, sc):
                     bad_corr.append((tup, t, got[t], mod[t]))
                 if isinstance(g, str):
                     fails.append(("uninitialised" if _is_skipped_diagonal(sch, tup) else "finite", tup,
                                   f"genic {sch}{list(tup)} trait {t} was never written (numpy.empty)"))
                     continue
-                if enum is not None:
-                    want = enum[tup][1][t][t]
-                    if not self._close(g, want):
-                        fails.append(("enum", tup, f"genic {sch}{list(tup)} = {float(g)} but linkage-free "
-                                                    f"enumeration = {float(want)}"))
-                if self._identical(sch, case["geno"], tup) and g != 0:
+                want = enum[tup][1][t][t]
+                if not _near(g, want, tol, sc):
+                    fails.append(("enum", tup, f"genic {sch}{list(tup)} = {float(g)} but linkage-free "
+                                                f"enumeration = {float(want)}"))
+                if _identical(sch, case["geno"], tup) and g != 0:
                     fails.append(("identical_nonzero", tup, f"identical parents {tup} nonzero"))
                 og = canon.dec(_get(M, tup[:-2] + (tup[-1], tup[-2]))[t])
-                if not isinstance(og, str) and not self._close(g, og):
+                if not isinstance(og, str) and not _near(g, og, tol, sc):
                     fails.append(("symmetry", tup, f"genic not symmetric at {tup}"))
+        return bad_corr, fails
+
+    def _judge_genic(self, case, obs, answers):
+        n = len(case["geno"][0])
+        bad_corr, fails = self._check_genic(case, obs, answers)
         seg = any(len({case["geno"][ph][t][i] for ph in (0, 1) for t in range(n)}) > 1
-                  for i in range(len(case["genpos2"])))
-        det = f"genic[{sch},{case['via']}]"
+                  for i in range(_nmark(case)))
+        det = f"genic[{case['scheme']},{case['via']}]"
         if bad_corr:
             det += f" MODEL!=IMPL at {bad_corr[0]}"
         if fails:
@@ -892,15 +1744,15 @@ class C12(Prop):
         return {"corr": not bad_corr, "spec": not fails, "nontrivial": bool(seg), "detail": det,
                 "fails": [(f[0], list(f[1]) if f[1] is not None else None) for f in fails]}
 
-    def _judge_uc(self, case, obs, answers):
+    def _check_uc(self, case, obs, answers):
         sch = case["scheme"]
         n = len(case["geno"][0])
-        nt = len(case["u"][0])
+        U = _U(case)
+        nt = len(U[0])
         model = answers[0]["ok"]
         pct = float(_fr(case["upper_percentile"]))
         nd = statistics.NormalDist()
         inten = nd.pdf(nd.inv_cdf(1.0 - pct)) / pct
-        U = [[_fr(v) for v in row] for row in case["u"]]
         beta = [_fr(v) for v in case["beta"]]
         p = len(U)
         bv = [[beta[t] + sum(U[i][t] * (case["geno"][0][k][i] + case["geno"][1][k][i]) for i in range(p))
@@ -910,21 +1762,24 @@ class C12(Prop):
         fails, bad_corr = [], []
         if obs["xmap"] != want_x:
             fails.append(("xmap", None, f"cross map {obs['xmap'][:4]}.. differs from the index tuples {want_x[:4]}.."))
-        enum = self._enum_matrix(case)
+        enum = _oracle_matrix(case)
+        tol = 1e-9
         for row, cfg in zip(obs["uc"], obs["xmap"]):
             tup = tuple(cfg)
             pm = [sum(e * bv[k][t] for e, k in zip(EPGC[sch], cfg)) for t in range(nt)]
             mcell = _get(model, tup)
             for t in range(nt):
+                sc = float(_scale(U, t, t))
+                msc = max(1.0, abs(float(pm[t])), inten * math.sqrt(sc))          # magnitude of the uc value
                 ucv = canon.dec(row[t])
                 if isinstance(ucv, str):
                     fails.append(("finite", tup, f"uc{cfg} trait {t} = {ucv}"))
                     bad_corr.append((tup, t))
                     continue
-                dev = float(ucv - pm[t]) / inten
                 mv = float(canon.dec(mcell[t]))
-                if not (dev >= -1e-9 and abs(dev * dev - mv) <= 1e-8 * max(1.0, abs(mv))):
-                    bad_corr.append((tup, t, dev * dev, mv))
+                wantm = float(pm[t]) + inten * math.sqrt(max(mv, 0.0))
+                if abs(float(ucv) - wantm) > tol * msc:
+                    bad_corr.append((tup, t, float(ucv), wantm))
                 if enum is not None:
                     mu, C = enum[tup]
                     ev = float(C[t][t])
@@ -932,31 +1787,37 @@ class C12(Prop):
                     if abs(emean - float(pm[t])) > 1e-9 * max(1.0, abs(emean)):
                         fails.append(("mean", tup, f"enumerated progeny mean {emean} != parental mean {float(pm[t])}"))
                     want = emean + inten * math.sqrt(max(ev, 0.0))
-                    if abs(float(ucv) - want) > 1e-8 * max(1.0, abs(want)):
+                    if abs(float(ucv) - want) > tol * msc:
+                        dev = (float(ucv) - float(pm[t])) / inten if inten else 0.0
                         diag0 = sch != "two" and _is_skipped_diagonal(sch, tup) and abs(dev) <= 1e-12
                         fails.append(("enum_selfhybrid" if diag0 else "enum", tup, f"uc {sch}{cfg} trait {t} = {float(ucv)!r}, mean + i*sqrt(enumerated "
                                                     f"variance) = {want!r}"))
-        xs = _xs_of(case)
-        nontriv = any(0 < x < HALF for x in xs) and len(obs["uc"]) >= 1
-        det = f"uc[{sch},nself={case['nself']},unique={case['unique_parents']}] rows={len(obs['uc'])}"
+        return bad_corr, fails
+
+    def _judge_uc(self, case, obs, answers):
+        bad_corr, fails = self._check_uc(case, obs, answers)
+        linked, seg = self._linked_segregating(case)
+        det = f"uc[{case['scheme']},nself={case['nself']},unique={case['unique_parents']},{case.get('uc_class', 'Subset')}." \
+              f"{case.get('uc_method', 'gpmod')}] rows={len(obs['uc'])}"
         if bad_corr:
             det += f" MODEL!=IMPL at {bad_corr[0]}"
         if fails:
             det += " SPEC: " + "; ".join(f[2] for f in fails[:3])
-        return {"corr": not bad_corr, "spec": not fails, "nontrivial": bool(nontriv), "detail": det,
+        return {"corr": not bad_corr, "spec": not fails, "nontrivial": bool(linked and len(obs["uc"]) >= 1), "detail": det,
                 "fails": [(f[0], list(f[1]) if f[1] is not None else None) for f in fails]}
 
     def _judge_util(self, case, obs, answers):
         model = answers[0]["ok"]
         out = obs["out"]
-        corr = len(out) == len(model) and all(
-            not isinstance(canon.dec(a), str) and self._close(canon.dec(a), canon.dec(b)) for a, b in zip(out, model))
-        # Spec: two-locus enumeration.  Parents a=(1,1), b=(0,0), effects (1,1): Var = 2 + 2*D1(r);
-        # three-way with p1=(0,0), p2=(1,1), p3=(0,0): Var = (2+2D1)/2... handled through D2 = (4V3 - 3*(2+2*D1))/... see below
-        fails = []
         fn, ns, t = case["fn"], case["nself"], case["t"]
-        gens = INF_GENERATIONS if ns is None else ns
-        tol = 1e-8 if ns is None else 1e-9
+        tol = 1e-13
+        corr = len(out) == len(model) and all(
+            not isinstance(canon.dec(a), str) and abs(canon.dec(a) - canon.dec(b)) <= tol for a, b in zip(out, model))
+        # Spec: two-locus enumeration.  Parents a=(1,1), b=(0,0): 4 Cov(g_0,g_1) = D1(r) for the two-way cross;
+        # for (a x b) x (a x b): 8 Cov4 - 4 Cov2 = D2(r)
+        fails = []
+        gens = INF_GENERATIONS_PAIR if ns is None else ns
+        po = _PairOracle(exact=True)
         if t == 0 and fn != "rprob_filial":
             for rv, got in zip(case["r"], out):
                 r = _fr(rv)
@@ -964,28 +1825,23 @@ class C12(Prop):
                 if isinstance(g, str):
                     fails.append(("finite", None, f"{fn}({rv}) = {g}"))
                     continue
-                en = _Enum([HALF, r])
+                c2 = po.pair("two", (1, 0), (1, 0), 1 - 2 * r, gens)
                 if fn.startswith("cov_D1"):
-                    _, c = en.moments("two", [(1, 1), (0, 0)], gens)
-                    want = 4 * c[0][1]                      # Cov(g_0,g_1) = D1/4
+                    want = 4 * c2
                 else:
-                    # four-way (p1 x p2) x (p1 x p2), p1=(1,1), p2=(0,0): m12 = m34, so
-                    # 4 Cov(g_0,g_1) = (D1 + D2) * (1/4 + 1/4) = (D1 + D2)/2 with D1 from the two-way cross
-                    _, c2 = en.moments("two", [(1, 1), (0, 0)], gens)
-                    _, c4 = en.moments("four", [(1, 1), (0, 0), (1, 1), (0, 0)], gens)
-                    want = 8 * c4[0][1] - 4 * c2[0][1]
-                if not self._close(g, want, rel=tol, abs_=tol):
-                    fails.append(("enum", None, f"{fn}(r={rv}, nself={ns}) = {float(g)} but two-locus enumeration gives {float(want)}"))
+                    c4 = po.pair("four", (1, 0, 1, 0), (1, 0, 1, 0), 1 - 2 * r, gens)
+                    want = 8 * c4 - 4 * c2
+                if abs(g - want) > tol:
+                    fails.append(("enum", None, f"{fn}(r={rv}, nself={ns}) = {float(g)!r} but two-locus enumeration gives {float(want)!r}"))
         elif fn == "rprob_filial":
             for rv, got in zip(case["r"], out):
                 r = _fr(rv)
                 g = canon.dec(got)
-                en = _Enum([HALF, r])
-                k = INF_GENERATIONS + 1 if ns is None else ns
-                _, c = en.moments("two", [(1, 1), (0, 0)], k - 1)
-                want = (1 - 4 * c[0][1]) / 2                # observed recombination rate among gametes of F_k
-                if isinstance(g, str) or not self._close(g, want, rel=tol, abs_=tol):
-                    fails.append(("enum", None, f"rprob_filial(r={rv}, k={ns}) = {got} but enumeration gives {float(want)}"))
+                k = INF_GENERATIONS_PAIR + 1 if ns is None else ns
+                c2 = po.pair("two", (1, 0), (1, 0), 1 - 2 * r, k - 1)
+                want = (1 - 4 * c2) / 2                # observed recombination rate among gametes of F_k
+                if isinstance(g, str) or abs(g - want) > tol:
+                    fails.append(("enum", None, f"rprob_filial(r={rv}, k={ns}) = {got} but enumeration gives {float(want)!r}"))
         nontriv = any(0 < _fr(v) < HALF for v in case["r"])
         det = f"util[{fn},nself={ns},t={t}]"
         if not corr:
@@ -1021,10 +1877,11 @@ class C12(Prop):
         sr = obs["srange"]
         ok = ok and sr == list(range(lst, lsp, case["step"])) + [lsp]
         return {"corr": corr, "spec": bool(ok), "nontrivial": len(ch) >= 2,
-                "detail": f"chunks[{lst},{lsp},{case['step']}] impl={ch} model={model} tiles={ok}",
+                "detail": f"chunks[{lst},{lsp},{case['step']}] impl={ch[:6]} model={model[:6]} tiles={ok}",
                 "fails": [] if ok else [("tiling", None)]}
 
     def judge(self, case, obs, answers):
+        answers = self._merge_answers(case, obs, answers)
         for a in answers:
             if "err" in a:
                 raise RuntimeError("driver error: " + a["err"])
@@ -1049,10 +1906,22 @@ class C12(Prop):
                 if len(case["r"]) > 1:
                     yield dict(case, r=case["r"][:i] + case["r"][i + 1:])
             return
-        if k == "chunks":
+        if k in ("chunks", "wide"):
+            return
+        if k == "hist":
+            steps = case["steps"]
+            for i in range(len(steps)):
+                rest = steps[:i] + steps[i + 1:]
+                ncall = sum(1 for s in rest if s["op"] == "call")
+                if ncall >= 1 and rest and all(s["op"] != "mutres" or s["which"] < sum(1 for q in rest[:j] if q["op"] == "call")
+                                               for j, s in enumerate(rest)):
+                    yield dict(case, steps=rest)
+            nt = len(case["u"][0])
+            if nt > 1 and not any(s["op"] == "set_u" for s in steps):
+                yield dict(case, u=[r[:1] for r in case["u"]])
             return
         n = len(case["geno"][0])
-        p = len(case["genpos2"])
+        p = _nmark(case)
         nt = len(case["u"][0])
         minn = 1 if case.get("scheme") == "dihybrid" else 2
         if k == "uc" and case.get("unique_parents"):
@@ -1073,10 +1942,14 @@ class C12(Prop):
                     c = dict(case)
                     c["geno"] = [[[v for i, v in enumerate(row) if i != j] for row in ph] for ph in case["geno"]]
                     c["u"] = [r for i, r in enumerate(case["u"]) if i != j]
-                    c["genpos2"] = [v for i, v in enumerate(case["genpos2"]) if i != j]
+                    for key in ("genpos2", "genposf"):
+                        if key in case:
+                            c[key] = [v for i, v in enumerate(case[key]) if i != j]
                     sizes = list(case["chr_sizes"])
                     sizes[ci] -= 1
                     c["chr_sizes"] = [x for x in sizes if x > 0]
+                    if "chr_labels" in case:
+                        c["chr_labels"] = [lb for lb, x in zip(case["chr_labels"], sizes) if x > 0]
                     yield c
                 st += s
         # drop a trait
@@ -1087,8 +1960,13 @@ class C12(Prop):
                 if "beta" in c:
                     c["beta"] = [v for i, v in enumerate(case["beta"]) if i != t]
                 yield c
+        for key in ("layout", "nself_form", "mem_form", "chr_labels", "taxa_grp_none"):
+            if case.get(key):
+                c = dict(case)
+                c.pop(key)
+                yield c
         if case.get("nself") not in (0,):
-            yield dict(case, nself=0)
+            yield dict(case, nself=0, nself_form=None)
         if case.get("mem") is not None and k == "vmat":
             yield dict(case, mem=None, mem2=1)
         if k == "vmat" and case["perm"] != list(range(n)):
@@ -1106,7 +1984,7 @@ class C12(Prop):
 
         @contextlib.contextmanager
         def patch(obj, name, new):
-            old = getattr(obj, name)
+            old = obj.__dict__[name] if isinstance(obj, type) and name in obj.__dict__ else getattr(obj, name)
             setattr(obj, name, new)
             try:
                 yield
@@ -1136,12 +2014,36 @@ class C12(Prop):
             return lambda: patch(cls, name, new)
 
         util = m["util"]
+        allmods = [m[f"{a}_mod_{k}"] for a in ("var", "cov") for k in SCHEMES]
 
         def rprob_no_half(r, k):
             two_r = 2.0 * r
             r_k = two_r / (1.0 + two_r)
             if k < numpy.inf:
                 r_k = r_k * (1.0 - ((1.0 - two_r) ** k))
+            return r_k
+
+        def rprob_limit_from_8(r, k):
+            two_r = 2.0 * r
+            r_k = two_r / (1.0 + two_r)
+            if k < 8:
+                r_k = r_k * (1.0 - ((0.5 ** k) * ((1.0 - two_r) ** k)))
+            return r_k
+
+        def rprob_nonint_is_inf(r, k):
+            two_r = 2.0 * r
+            r_k = two_r / (1.0 + two_r)
+            if isinstance(k, int):
+                r_k = r_k * (1.0 - ((0.5 ** k) * ((1.0 - two_r) ** k)))
+            return r_k
+
+        def rprob_underflow_guard(r, k):
+            two_r = 2.0 * r
+            r_k = two_r / (1.0 + two_r)
+            if k < numpy.inf:
+                corr = (0.5 ** k) * ((1.0 - two_r) ** k)
+                corr = numpy.where(corr < 1e-6, 0.0, corr)       # 'negligible' correction dropped
+                r_k = r_k * (1.0 - corr)
             return r_k
 
         def d1_as_k(r, nself):
@@ -1156,12 +2058,22 @@ class C12(Prop):
             yield from range(start, stop, step)
             yield stop - 1
 
+        def srange_no_dup_stop(start, stop, step):
+            yield from range(start, stop, step)
+            if (stop - start) % step != 0:
+                yield stop
+
+        def util_everywhere(name, new):
+            return lambda: many(*[(lambda mod=mod: patch(mod, name, new)) for mod in allmods if hasattr(mod, name)],
+                                lambda: patch(util, name, new))
+
         muts = []
         # --- linkage-decay terms (vmat/util.py)
         muts.append(("rprob_filial_drop_half_pow", lambda: patch(util, "rprob_filial", rprob_no_half)))
-        muts.append(("cov_D1s_generation_off_by_one", lambda: many(
-            *[(lambda mod=mod: patch(mod, "cov_D1s", d1_as_k)) for mod in
-              [m[f"{a}_mod_{k}"] for a in ("var", "cov") for k in SCHEMES]], lambda: patch(util, "cov_D1s", d1_as_k))))
+        muts.append(("rprob_filial_limit_from_k8", lambda: patch(util, "rprob_filial", rprob_limit_from_8)))
+        muts.append(("rprob_filial_numpy_int_is_inf", lambda: patch(util, "rprob_filial", rprob_nonint_is_inf)))
+        muts.append(("rprob_filial_drops_small_correction", lambda: patch(util, "rprob_filial", rprob_underflow_guard)))
+        muts.append(("cov_D1s_generation_off_by_one", util_everywhere("cov_D1s", d1_as_k)))
         muts.append(("D1_for_D2", lambda: many(
             *[(lambda mod=mod: patch(mod, "cov_D2s", util.cov_D1s)) for mod in
               [m[f"{a}_mod_{k}"] for a in ("var", "cov") for k in ("three", "four", "dihybrid")]],
@@ -1172,12 +2084,31 @@ class C12(Prop):
             lambda: patch(util, "cov_D2s", d2_sq_always))))
         # --- chunking (srange)
         muts.append(("chunk_stop_minus_one", lambda: many(
-            *[(lambda mod=mod: patch(mod, "srange", srange_short)) for mod in
-              [m[f"{a}_mod_{k}"] for a in ("var", "cov") for k in SCHEMES]], lambda: patch(m["sub"], "srange", srange_short))))
+            *[(lambda mod=mod: patch(mod, "srange", srange_short)) for mod in allmods], lambda: patch(m["sub"], "srange", srange_short))))
+        muts.append(("srange_no_stop_on_exact_multiple", lambda: many(
+            *[(lambda mod=mod: patch(mod, "srange", srange_no_dup_stop)) for mod in allmods],
+            lambda: patch(m["sub"], "srange", srange_no_dup_stop))))
         # --- recombination from |g_i - g_j|
         muts.append(("no_abs_of_position_difference", lambda: many(
             *[resrc(m[f"{a}_{k}"], m[f"{a}_mod_{k}"], [("numpy.abs(gi - gj)", "(gi - gj)")])
               for a in ("var", "cov") for k in SCHEMES])))
+        muts.append(("two_way_positions_above_10_taken_as_cM", resrc(m["var_two"], m["var_mod_two"], [
+            ("genpos = pgmat.vrnt_genpos ", "genpos = pgmat.vrnt_genpos if pgmat.vrnt_genpos.max() <= 10.0 else 0.01 * pgmat.vrnt_genpos ")])))
+        muts.append(("dihybrid_cov_positions_above_10_taken_as_cM", resrc(m["cov_dihybrid"], m["cov_mod_dihybrid"], [
+            ("genpos = pgmat.vrnt_genpos ", "genpos = pgmat.vrnt_genpos if pgmat.vrnt_genpos.max() <= 10.0 else 0.01 * pgmat.vrnt_genpos ")])))
+        muts.append(("four_way_positions_in_single_precision", resrc(m["var_four"], m["var_mod_four"], [
+            ("genpos = pgmat.vrnt_genpos ", "genpos = pgmat.vrnt_genpos.astype('float32').astype(float) ")])))
+        muts.append(("three_way_isclose_distance_zero", resrc(m["var_three"], m["var_mod_three"], [
+            ("r = gmapfn.mapfn(numpy.abs(gi - gj))", "r = gmapfn.mapfn(numpy.where(numpy.isclose(gi, gj, atol=1e-6), 0.0, numpy.abs(gi - gj)))")])))
+        muts.append(("four_way_genotypes_raveled_in_memory_order", resrc(m["var_four"], m["var_mod_four"], [
+            ("geno = pgmat.mat ", "geno = pgmat.mat.ravel(order='K').reshape(pgmat.mat.shape) ")])))
+        muts.append(("two_way_cov_effects_raveled_in_memory_order", resrc(m["cov_two"], m["cov_mod_two"], [
+            ("u = algmod.u_a ", "u = algmod.u_a.ravel(order='K').reshape(algmod.u_a.shape) ")])))
+        muts.append(("two_way_small_variance_clipped", resrc(m["var_two"], m["var_mod_two"], [
+            ("var_A[female,male,:] += var_A_partial", "var_A[female,male,:] += numpy.where(numpy.abs(var_A_partial) < 1e-10, 0.0, var_A_partial)")])))
+        muts.append(("dihybrid_linkage_groups_by_consecutive_label", resrc(m["var_dihybrid"], m["var_mod_dihybrid"], [
+            ("for lst, lsp in zip(chrgrp_stix, chrgrp_spix):",
+             "for lst, lsp in [(s, e) for s, e, nm in zip(chrgrp_stix, chrgrp_spix, pgmat.vrnt_chrgrp_name) if nm >= 1]:")])))
         # --- mirror step
         muts.append(("forget_mirror_two_way", resrc(m["var_two"], m["var_mod_two"],
                                                     [("var_A[male,female,:] = var_A[female,male,:]", "pass")])))
@@ -1193,6 +2124,9 @@ class C12(Prop):
         muts.append(("three_way_quarter_to_half", resrc(m["var_three"], m["var_mod_three"], [("varA_mat *= 0.25", "varA_mat *= 0.5")])))
         muts.append(("four_way_drop_part32", resrc(m["var_four"], m["var_mod_four"],
                                                    [("varA_part21 + varA_part31 + varA_part32 +", "varA_part21 + varA_part31 +")])))
+        muts.append(("four_way_skip_one_marker_groups", resrc(m["var_four"], m["var_mod_four"], [
+            ("for lst, lsp in zip(chrgrp_stix, chrgrp_spix):",
+             "for lst, lsp in [(s, e) for s, e in zip(chrgrp_stix, chrgrp_spix) if e - s >= 2]:")])))
         muts.append(("three_way_cov_D1_part23", resrc(m["cov_three"], m["cov_mod_three"],
                                                       [("varA_part23 = reffect23 @ D2 @ ceffect23.T", "varA_part23 = reffect23 @ D1 @ ceffect23.T")])))
         muts.append(("two_way_cov_transposed_effects", resrc(m["cov_two"], m["cov_mod_two"],
@@ -1207,6 +2141,9 @@ class C12(Prop):
                                                                [("for male in range(0,female+1):", "for male in range(0,female):")])))
         muts.append(("dihybrid_cov_skip_selfs", resrc(m["cov_dihybrid"], m["cov_mod_dihybrid"],
                                                       [("for male in range(0,female+1):", "for male in range(0,female):")])))
+        muts.append(("two_way_default_mem_drops_last_partial_chunk", resrc(m["var_two"], m["var_mod_two"], [
+            ("step = (lsp - lst) if mem is None else mem",
+             "step = (lsp - lst) if mem is None else mem; lsp = (lst + ((lsp - lst) // mem) * mem) if (mem == 1024 and lsp - lst > mem) else lsp")])))
         # --- genic
         muts.append(("genic_two_way_diagonal_unwritten", resrc(m["genic_two"], m["genic_mod_two"],
                                                                [("for male in range(0,female+1):", "for male in range(0,female):")])))
@@ -1224,6 +2161,71 @@ class C12(Prop):
                                lambda self, gmod, pgmat, ncross, nprogeny, nself, gmapfn, k=k, **kw:
                                m["var_" + k].from_gmod(gmod=gmod, pgmat=pgmat, nmating=ncross, nprogeny=nprogeny,
                                                        nself=0, gmapfn=gmapfn, **kw))) for k in SCHEMES])))
+
+        # stateful mutants: memo keyed on object identities, results sharing one buffer
+        def memo_factory(k):
+            orig = m["fcty_" + k].from_gmod
+
+            def from_gmod(self, gmod, pgmat, ncross, nprogeny, nself, gmapfn, **kw):
+                last = getattr(self, "_last", None)
+                if last is not None and last[0] is gmod and last[1] is pgmat and last[2] == (ncross, nprogeny, nself):
+                    return last[3]
+                out = orig(self, gmod, pgmat, ncross, nprogeny, nself, gmapfn, **kw)
+                self._last = (gmod, pgmat, (ncross, nprogeny, nself), out)
+                return out
+            return lambda: patch(m["fcty_" + k], "from_gmod", from_gmod)
+
+        muts.append(("factory_memoises_on_object_identity", lambda: many(*[memo_factory(k) for k in SCHEMES])))
+
+        def rcache_class(a, k):
+            """recombination matrix cached per (id(pgmat), block): stale after positions are replaced"""
+            return resrc(m[f"{a}_{k}"], m[f"{a}_mod_{k}"], [
+                ("r = gmapfn.mapfn(numpy.abs(gi - gj))",
+                 "r = cls.__dict__.setdefault('_rc', {}).setdefault((id(pgmat), type(gmapfn).__name__, rst, rsp, cst, csp), "
+                 "gmapfn.mapfn(numpy.abs(gi - gj)))")])
+
+        @contextlib.contextmanager
+        def clear_rc(classes):
+            try:
+                yield
+            finally:
+                for c in classes:
+                    if "_rc" in c.__dict__:
+                        delattr(c, "_rc")
+
+        muts.append(("recombination_block_cached_per_pgmat_object", lambda: many(
+            rcache_class("var", "two"), rcache_class("cov", "three"), rcache_class("var", "dihybrid"),
+            lambda: clear_rc([m["var_two"], m["cov_three"], m["var_dihybrid"]]))))
+
+        def shared_buffer(k):
+            orig = m["var_" + k].from_algmod.__func__
+            store = {}
+
+            def from_algmod(cls, *a, **kw):
+                out = orig(cls, *a, **kw)
+                buf = store.get(out.mat.shape)
+                if buf is None:
+                    store[out.mat.shape] = out.mat
+                else:
+                    buf[...] = out.mat
+                    out.mat = buf                          # every result of this shape lives in one workspace
+                return out
+            return lambda: patch(m["var_" + k], "from_algmod", classmethod(from_algmod))
+
+        muts.append(("results_share_one_workspace", lambda: many(*[shared_buffer(k) for k in SCHEMES])))
+
+        def genic_memo():
+            orig = m["genic_two"].from_algmod.__func__
+            store = {}
+
+            def from_algmod(cls, algmod, pgmat, *a, **kw):
+                key = (id(algmod), id(pgmat))
+                if key not in store:
+                    store[key] = orig(cls, algmod, pgmat, *a, **kw)
+                return store[key]
+            return lambda: patch(m["genic_two"], "from_algmod", classmethod(from_algmod))
+
+        muts.append(("genic_two_way_memoised_on_object_identity", genic_memo()))
         # --- usefulness criterion
         ucmix = m["ucmod"].UsefulnessCriterionSelectionProblemMixin
 
@@ -1242,7 +2244,32 @@ class C12(Prop):
 
         muts.append(("uc_without_sqrt", resrc_static([("numpy.sqrt(pvar)", "pvar")])))
         muts.append(("uc_mean_unweighted", resrc_static([("pmean = epgc.dot(bvmat[cconfig,:])", "pmean = bvmat[cconfig,:].mean(0) if len(set(epgc)) > 1 else bvmat[cconfig,:].sum(0)")])))
+        muts.append(("uc_mean_from_scaled_breeding_values", resrc_static([("bvmat = bvmat_obj.unscale()", "bvmat = bvmat_obj.mat")])))
+        muts.append(("uc_zero_variance_for_one_taxon_configurations", resrc_static([
+            ("pvar = vmat[tuple(cconfig) + (slice(None),)]",
+             "pvar = vmat[tuple(cconfig) + (slice(None),)] * (0.0 if len(set(int(c) for c in cconfig)) == 1 else 1.0)")])))
+        muts.append(("uc_variance_clipped_from_below", resrc_static([("numpy.sqrt(pvar)", "numpy.sqrt(numpy.clip(pvar, 1e-8, None))")])))
+        for cname, meth in (("Real", "from_pgmat_gpmod_xmap"), ("Integer", "from_pgmat_gpmod"), ("Binary", "from_pgmat_gpmod_xmap")):
+            cls = getattr(m["ucmod"], f"UsefulnessCriterion{cname}MateSelectionProblem")
+            muts.append((f"uc_intensity_divided_by_complement_{cname}_{meth}", resrc(cls, m["ucmod"], [
+                ("scipy.stats.norm.ppf(1.0 - upper_percentile)) / upper_percentile",
+                 "scipy.stats.norm.ppf(1.0 - upper_percentile)) / (1.0 - upper_percentile)")], name=meth)))
 
+        def resrc_method(cls, mod, subs, name):
+            fn = cls.__dict__[name]
+            src = textwrap.dedent(inspect.getsource(fn)).replace("\r", "")
+            for a, b in subs:
+                if a not in src:
+                    raise RuntimeError(f"mutant pattern not found: {a!r} in {cls.__name__}.{name}")
+                src = src.replace(a, b)
+            ns = {}
+            exec(compile(src, f"<mutant {cls.__name__}.{name}>", "exec"), mod.__dict__, ns)
+            return lambda: patch(cls, name, ns[name])
+
+        muts.append(("uc_protocol_passes_nprogeny_as_nself", resrc_method(
+            m["ucprot"].UsefulnessCriterionRealSelection, m["ucprot"], [("nself = self.nself,", "nself = nprogeny_median,")], "problem")))
+        muts.append(("uc_protocol_ignores_unique_parents", resrc_method(
+            m["ucprot"].UsefulnessCriterionSubsetSelection, m["ucprot"], [("        self.unique_parents\n    )", "        True\n    )")], "problem")))
         return muts
 
 
